@@ -1,20 +1,34 @@
 package main
 
-// addr2: T1 facts for C04 (mailbox naming is canonical) beyond the character tables of extractAddr:
-//   * which HTTP / websocket handlers take a mailbox name from the URL and whether each one canonicalises it with
-//     Manager.MailboxForAddress before anything else touches the manager or the hub;
-//   * that MailboxForAddress IS ExtractMailbox;
-//   * the shape of canonicalDomain, of the IPv6 tag handling in ValidateDomainPart, of the name-shape test of
-//     ExtractMailbox and of the two naming returns;
-//   * that the POP3 server takes the mailbox name verbatim (open finding F-04d).
-// Every fact whose code shape is not recognised is emitted as none / false so that its tie theorem stops checking.
+// addr / addr2: T1 facts for C04 / C05 about pkg/policy/address.go, the read side (REST / websocket / web-UI
+// controllers, StoreManager.MailboxForAddress) and the POP3 server.
+//
+// Everything here is recognised through go/ast STRUCTURE, never through spelling:
+//   * exported / package-level things are found by name (Addressing.ExtractMailbox, ValidateDomainPart,
+//     StoreManager.MailboxForAddress, strings.HasPrefix, net.ParseIP, config.LocalNaming, web.Context, GetMessages …;
+//     an import alias is resolved to the last element of the import path);
+//   * unexported helpers are found by FOLLOWING CALLS from those (the raw address parser is "the 3-result function
+//     ExtractMailbox calls with its parameter", the mailbox-name parser is "the (string) (string, error) function
+//     called with result 0 of that", the domain extractor is what the DomainNaming dispatch returns, canonicalDomain
+//     is the (string) string function inside the naming returns, the POP3 command parser is "the method whose result 1
+//     is handed to the handler that has a USER clause" …);
+//   * locals, parameters and receivers are identified by ROLE (n-th parameter, "assigned from the call to F", loop
+//     index over the parameter, the counter that is incremented and reset, …) and printed as placeholders
+//     ($recv, $p0, $x, $dom, $canon, $i, $n); single-assignment locals defined from a pure expression are expanded;
+//     package-level string / int constants are replaced by their value; len("lit") is folded;
+//   * control flow is normalised to a sequence of guarded exits: `if C { return … }`, if / else-if chains, inverted
+//     `if C { … } else { return … }`, tag and tag-less switches; `a || b` in one guard and consecutive guards with the
+//     same kind of exit are the same thing (the set / sequence of or-leaves); `!(a && b)` is `!a || !b`.
+// Every fact whose code shape is not recognised is emitted as none / false / a text no tie theorem accepts.
 
 import (
 	"fmt"
 	"go/ast"
 	"go/token"
 	"os"
+	"path"
 	"path/filepath"
+	"regexp"
 	"sort"
 	"strconv"
 	"strings"
@@ -22,12 +36,7 @@ import (
 
 func init() { extractors = append(extractors, extractAddr2) }
 
-var addr2HandlerFiles = []string{
-	"pkg/rest/apiv1_controller.go",
-	"pkg/rest/socketv1_controller.go",
-	"pkg/rest/socketv2_controller.go",
-	"pkg/webui/mailbox_controller.go",
-}
+var addr2HandlerDirs = []string{"pkg/rest", "pkg/webui"}
 
 var addr2RouteFiles = []string{"pkg/rest/routes.go", "pkg/webui/routes.go"}
 
@@ -48,116 +57,6 @@ func strLitVal(e ast.Expr) (string, bool) {
 		return "", false
 	}
 	return s, true
-}
-
-func intLitVal(e ast.Expr) (int, bool) {
-	lit, ok := e.(*ast.BasicLit)
-	if !ok || lit.Kind != token.INT {
-		return 0, false
-	}
-	v, err := strconv.Atoi(lit.Value)
-	if err != nil {
-		return 0, false
-	}
-	return v, true
-}
-
-// isNameIndex: an index expression `<anything>["name"]`.
-func isNameIndex(n ast.Node) (*ast.IndexExpr, bool) {
-	ie, ok := n.(*ast.IndexExpr)
-	if !ok {
-		return nil, false
-	}
-	if s, ok := strLitVal(ie.Index); ok && s == "name" {
-		return ie, true
-	}
-	return nil, false
-}
-
-// isCtxVarsName: exactly `ctx.Vars["name"]`.
-func isCtxVarsName(n ast.Node) (*ast.IndexExpr, bool) {
-	ie, ok := isNameIndex(n)
-	if !ok {
-		return nil, false
-	}
-	return ie, src(ie.X) == "ctx.Vars"
-}
-
-type handlerRow struct {
-	file, fn        string
-	canon, onlyCano bool
-}
-
-// analyseHandler: fd reads ctx.Vars["name"] (uses >= 1).
-func analyseHandler(file string, fd *ast.FuncDecl) handlerRow {
-	row := handlerRow{file: file, fn: fd.Name.Name}
-	var uses []*ast.IndexExpr
-	ast.Inspect(fd.Body, func(n ast.Node) bool {
-		if ie, ok := isCtxVarsName(n); ok {
-			uses = append(uses, ie)
-		}
-		return true
-	})
-	if len(uses) == 0 {
-		return row
-	}
-	sort.Slice(uses, func(i, j int) bool { return uses[i].Pos() < uses[j].Pos() })
-	first := uses[0]
-	// The statement-level shape: a direct child of the function body `v, err := ctx.Manager.MailboxForAddress(ctx.Vars["name"])`.
-	var call *ast.CallExpr
-	for _, st := range fd.Body.List {
-		if st.Pos() <= first.Pos() && first.End() <= st.End() {
-			as, ok := st.(*ast.AssignStmt)
-			if !ok || len(as.Rhs) != 1 || len(as.Lhs) != 2 {
-				break
-			}
-			id, ok := as.Lhs[0].(*ast.Ident)
-			if !ok || id.Name == "_" {
-				break
-			}
-			ce, ok := as.Rhs[0].(*ast.CallExpr)
-			if !ok || src(ce.Fun) != "ctx.Manager.MailboxForAddress" || len(ce.Args) != 1 || ce.Args[0] != ast.Expr(first) {
-				break
-			}
-			call = ce
-			break
-		}
-	}
-	if call == nil {
-		return row
-	}
-	row.canon = true
-	clean := len(uses) == 1
-	ast.Inspect(fd.Body, func(n ast.Node) bool {
-		if n == nil || n.Pos() >= call.Pos() {
-			// a node starting at or after the call (its own Fun included) is not "before" it; neither are its children
-			return false
-		}
-		switch v := n.(type) {
-		case *ast.SelectorExpr:
-			s := src(v)
-			if strings.HasPrefix(s, "ctx.Manager") || strings.HasPrefix(s, "ctx.MsgHub") {
-				clean = false
-			}
-		case *ast.Ident:
-			if v.Name == "msgHub" || v.Name == "MsgHub" || v.Name == "Manager" {
-				clean = false
-			}
-		}
-		return true
-	})
-	row.onlyCano = clean
-	return row
-}
-
-// routeHandlerName: `web.Handler(X)` -> X; anything else -> its source text (which matches no table entry).
-func routeHandlerName(e ast.Expr) string {
-	if ce, ok := e.(*ast.CallExpr); ok && src(ce.Fun) == "web.Handler" && len(ce.Args) == 1 {
-		if id, ok := ce.Args[0].(*ast.Ident); ok {
-			return id.Name
-		}
-	}
-	return src(e)
 }
 
 func addr2PairList(rows [][2]string) string {
@@ -182,66 +81,1919 @@ func optBytes(s string, ok bool) string {
 	return "some " + byteList(s)
 }
 
-// singleReturn: block is exactly `{ return r0, r1, ... }`.
-func singleReturn(b *ast.BlockStmt) *ast.ReturnStmt {
-	if b == nil || len(b.List) != 1 {
-		return nil
+// ------------------------------------------------------------------------------------------------ package view
+
+type addrPkg struct {
+	rel     string
+	broken  bool
+	files   []*ast.File
+	names   []string // repo-relative file names, parallel to files
+	funcs   map[string]*ast.FuncDecl
+	methods map[string]*ast.FuncDecl // "Type.method"
+	consts  map[string]*ast.BasicLit
+	fileOf  map[*ast.FuncDecl]*ast.File
+	relOf   map[*ast.FuncDecl]string
+}
+
+var addrPkgCache = map[string]*addrPkg{}
+
+func addrRecvType(fd *ast.FuncDecl) string {
+	if fd.Recv == nil || len(fd.Recv.List) != 1 {
+		return ""
 	}
-	r, _ := b.List[0].(*ast.ReturnStmt)
+	t := fd.Recv.List[0].Type
+	if s, ok := t.(*ast.StarExpr); ok {
+		t = s.X
+	}
+	if id, ok := t.(*ast.Ident); ok {
+		return id.Name
+	}
+	return ""
+}
+
+// addrLoadPkg parses every non-test, non-hook .go file of one directory.
+func addrLoadPkg(rel string) *addrPkg {
+	if p, ok := addrPkgCache[rel]; ok {
+		return p
+	}
+	p := &addrPkg{rel: rel, funcs: map[string]*ast.FuncDecl{}, methods: map[string]*ast.FuncDecl{},
+		consts: map[string]*ast.BasicLit{}, fileOf: map[*ast.FuncDecl]*ast.File{}, relOf: map[*ast.FuncDecl]string{}}
+	addrPkgCache[rel] = p
+	ents, err := os.ReadDir(filepath.Join(repo, rel))
+	if err != nil {
+		p.broken = true
+		return p
+	}
+	for _, e := range ents {
+		n := e.Name()
+		if e.IsDir() || !strings.HasSuffix(n, ".go") || strings.HasSuffix(n, "_test.go") || strings.HasPrefix(n, "verif_export") {
+			continue
+		}
+		f := parse(rel + "/" + n)
+		if f == nil {
+			p.broken = true
+			continue
+		}
+		p.files = append(p.files, f)
+		p.names = append(p.names, rel+"/"+n)
+		for _, d := range f.Decls {
+			switch v := d.(type) {
+			case *ast.FuncDecl:
+				if v.Recv == nil {
+					p.funcs[v.Name.Name] = v
+				} else {
+					p.methods[addrRecvType(v)+"."+v.Name.Name] = v
+				}
+				p.fileOf[v] = f
+				p.relOf[v] = rel + "/" + n
+			case *ast.GenDecl:
+				if v.Tok != token.CONST {
+					continue
+				}
+				for _, sp := range v.Specs {
+					vs, ok := sp.(*ast.ValueSpec)
+					if !ok || len(vs.Names) != len(vs.Values) {
+						continue
+					}
+					for i, nm := range vs.Names {
+						if lit, ok := vs.Values[i].(*ast.BasicLit); ok {
+							p.consts[nm.Name] = lit
+						}
+					}
+				}
+			}
+		}
+	}
+	return p
+}
+
+// addrImports: local name -> canonical name (last element of the import path).
+func addrImports(f *ast.File) map[string]string {
+	m := map[string]string{}
+	if f == nil {
+		return m
+	}
+	for _, im := range f.Imports {
+		p, ok := strLitVal(im.Path)
+		if !ok {
+			continue
+		}
+		canon := path.Base(p)
+		local := canon
+		if im.Name != nil {
+			local = im.Name.Name
+		}
+		if local == "_" || local == "." {
+			continue
+		}
+		m[local] = canon
+	}
+	return m
+}
+
+// addrTypes flattens a field list into one type text per declared name.
+func addrTypes(fl *ast.FieldList) []string {
+	var r []string
+	if fl == nil {
+		return r
+	}
+	for _, f := range fl.List {
+		n := len(f.Names)
+		if n == 0 {
+			n = 1
+		}
+		for i := 0; i < n; i++ {
+			r = append(r, src(f.Type))
+		}
+	}
 	return r
 }
 
-// orLeaves flattens a left-nested `a || b || c`.
-func orLeaves(e ast.Expr) []ast.Expr {
-	if be, ok := e.(*ast.BinaryExpr); ok && be.Op == token.LOR {
-		return append(orLeaves(be.X), orLeaves(be.Y)...)
+func addrParamNames(fl *ast.FieldList) []string {
+	var r []string
+	if fl == nil {
+		return r
 	}
-	if pe, ok := e.(*ast.ParenExpr); ok {
-		return orLeaves(pe.X)
+	for _, f := range fl.List {
+		if len(f.Names) == 0 {
+			r = append(r, "_")
+		}
+		for _, n := range f.Names {
+			r = append(r, n.Name)
+		}
 	}
-	return []ast.Expr{e}
+	return r
 }
 
-func plainIf(s ast.Stmt) *ast.IfStmt {
-	is, ok := s.(*ast.IfStmt)
-	if !ok || is.Init != nil || is.Else != nil {
+func addrSigIs(fd *ast.FuncDecl, params, results []string) bool {
+	if fd == nil {
+		return false
+	}
+	eq := func(a, b []string) bool {
+		if len(a) != len(b) {
+			return false
+		}
+		for i := range a {
+			if a[i] != b[i] {
+				return false
+			}
+		}
+		return true
+	}
+	return eq(addrTypes(fd.Type.Params), params) && eq(addrTypes(fd.Type.Results), results)
+}
+
+// addrCallee: the plain function of the same package a call goes to (nil when it is anything else).
+func addrCallee(p *addrPkg, ce *ast.CallExpr) *ast.FuncDecl {
+	id, ok := ce.Fun.(*ast.Ident)
+	if !ok {
 		return nil
 	}
-	return is
+	if id.Obj != nil && id.Obj.Kind != ast.Fun {
+		return nil
+	}
+	return p.funcs[id.Name]
 }
 
-func extractAddr2() {
-	g := gen("Addr2")
+// addrClosure: fd and the plain same-package functions it calls, two levels deep.
+func addrClosure(p *addrPkg, fd *ast.FuncDecl) []*ast.FuncDecl {
+	if fd == nil {
+		return nil
+	}
+	res := []*ast.FuncDecl{fd}
+	seen := map[*ast.FuncDecl]bool{fd: true}
+	level := []*ast.FuncDecl{fd}
+	for d := 0; d < 2; d++ {
+		var next []*ast.FuncDecl
+		for _, f := range level {
+			if f.Body == nil {
+				continue
+			}
+			ast.Inspect(f.Body, func(n ast.Node) bool {
+				if ce, ok := n.(*ast.CallExpr); ok {
+					if c := addrCallee(p, ce); c != nil && !seen[c] {
+						seen[c] = true
+						res = append(res, c)
+						next = append(next, c)
+					}
+				}
+				return true
+			})
+		}
+		level = next
+	}
+	return res
+}
 
-	// ---- 1. handlers taking a mailbox name from the URL
-	rows := []handlerRow{}
-	nameIdx := 0
-	for _, rel := range addr2HandlerFiles {
-		f := parse(rel)
-		if f == nil {
-			nameIdx += 1000 // unreadable file: make handlers_complete fail
+// ------------------------------------------------------------------------------------------------ canonical rendering
+
+type addrAliasDef struct {
+	rhs  ast.Expr
+	pos  token.Pos
+	free []string
+}
+
+// addrEnv: how the identifiers of one function are printed.
+type addrEnv struct {
+	pkg     *addrPkg
+	fd      *ast.FuncDecl
+	imports map[string]string
+	subst   map[string]string        // identifier -> placeholder
+	alias   map[string]*addrAliasDef // single-assignment local -> defining expression
+	assigns map[string][]token.Pos   // every position where a local is (re)assigned, declared, ranged over or has its address taken
+}
+
+func addrFreeIdents(e ast.Expr) []string {
+	var r []string
+	ast.Inspect(e, func(n ast.Node) bool {
+		switch v := n.(type) {
+		case *ast.SelectorExpr:
+			ast.Inspect(v.X, func(m ast.Node) bool {
+				if id, ok := m.(*ast.Ident); ok {
+					r = append(r, id.Name)
+				}
+				return true
+			})
+			return false
+		case *ast.Ident:
+			r = append(r, v.Name)
+		}
+		return true
+	})
+	return r
+}
+
+func addrNewEnv(p *addrPkg, fd *ast.FuncDecl) *addrEnv {
+	e := &addrEnv{pkg: p, fd: fd, imports: addrImports(p.fileOf[fd]), subst: map[string]string{},
+		alias: map[string]*addrAliasDef{}, assigns: map[string][]token.Pos{}}
+	if fd.Recv != nil && len(fd.Recv.List) == 1 && len(fd.Recv.List[0].Names) == 1 {
+		e.subst[fd.Recv.List[0].Names[0].Name] = "$recv"
+	}
+	for i, n := range addrParamNames(fd.Type.Params) {
+		if n != "_" {
+			e.subst[n] = fmt.Sprintf("$p%d", i)
+		}
+	}
+	if fd.Body == nil {
+		return e
+	}
+	note := func(x ast.Expr, at token.Pos) {
+		if id, ok := x.(*ast.Ident); ok && id.Name != "_" {
+			e.assigns[id.Name] = append(e.assigns[id.Name], at)
+		}
+	}
+	var cands []*ast.AssignStmt
+	ast.Inspect(fd.Body, func(n ast.Node) bool {
+		switch v := n.(type) {
+		case *ast.AssignStmt:
+			for _, l := range v.Lhs {
+				note(l, v.Pos())
+			}
+			if v.Tok == token.DEFINE && len(v.Lhs) == 1 && len(v.Rhs) == 1 {
+				cands = append(cands, v)
+			}
+		case *ast.IncDecStmt:
+			note(v.X, v.Pos())
+		case *ast.RangeStmt:
+			if v.Key != nil {
+				note(v.Key, v.Pos())
+			}
+			if v.Value != nil {
+				note(v.Value, v.Pos())
+			}
+		case *ast.UnaryExpr:
+			if v.Op == token.AND {
+				note(v.X, v.Pos())
+			}
+		case *ast.DeclStmt:
+			if gd, ok := v.Decl.(*ast.GenDecl); ok {
+				for _, sp := range gd.Specs {
+					if vs, ok := sp.(*ast.ValueSpec); ok {
+						for _, nm := range vs.Names {
+							note(nm, v.Pos())
+						}
+					}
+				}
+			}
+		}
+		return true
+	})
+	for _, as := range cands {
+		id, ok := as.Lhs[0].(*ast.Ident)
+		if !ok || id.Name == "_" || len(e.assigns[id.Name]) != 1 || e.subst[id.Name] != "" {
 			continue
 		}
-		ast.Inspect(f, func(n ast.Node) bool {
-			if _, ok := isNameIndex(n); ok {
-				nameIdx++
+		if e.pure(as.Rhs[0]) {
+			e.alias[id.Name] = &addrAliasDef{rhs: as.Rhs[0], pos: as.Pos(), free: addrFreeIdents(as.Rhs[0])}
+		}
+	}
+	return e
+}
+
+// pure: literals, identifiers, selectors, index / slice expressions, operators, len / conversions, strings.* calls and
+// calls of plain functions of the same package.
+func (e *addrEnv) pure(x ast.Expr) bool {
+	ok := true
+	ast.Inspect(x, func(n ast.Node) bool {
+		switch v := n.(type) {
+		case *ast.FuncLit, *ast.CompositeLit, *ast.TypeAssertExpr:
+			ok = false
+		case *ast.UnaryExpr:
+			if v.Op == token.AND || v.Op == token.ARROW {
+				ok = false
+			}
+		case *ast.CallExpr:
+			switch f := v.Fun.(type) {
+			case *ast.Ident:
+				switch f.Name {
+				case "len", "string", "byte", "rune", "int":
+				default:
+					if addrCallee(e.pkg, v) == nil {
+						ok = false
+					}
+				}
+			case *ast.SelectorExpr:
+				id, isID := f.X.(*ast.Ident)
+				if !isID || e.imports[id.Name] != "strings" || e.isLocal(id) {
+					ok = false
+				}
+			default:
+				ok = false
+			}
+		}
+		return ok
+	})
+	return ok
+}
+
+func (e *addrEnv) isLocal(id *ast.Ident) bool {
+	if _, ok := e.subst[id.Name]; ok {
+		return true
+	}
+	if _, ok := e.assigns[id.Name]; ok {
+		return true
+	}
+	return id.Obj != nil && (id.Obj.Kind == ast.Var)
+}
+
+func (e *addrEnv) assignedBetween(name string, from, to token.Pos) bool {
+	for _, p := range e.assigns[name] {
+		if p > from && p < to {
+			return true
+		}
+	}
+	return false
+}
+
+func addrStrip(x ast.Expr) ast.Expr {
+	for {
+		p, ok := x.(*ast.ParenExpr)
+		if !ok {
+			return x
+		}
+		x = p.X
+	}
+}
+
+func addrNot(x ast.Expr) ast.Expr { return &ast.UnaryExpr{Op: token.NOT, X: &ast.ParenExpr{X: x}} }
+
+var addrFlip = map[token.Token]token.Token{token.EQL: token.EQL, token.NEQ: token.NEQ, token.LSS: token.GTR, token.GTR: token.LSS, token.LEQ: token.GEQ, token.GEQ: token.LEQ}
+var addrNeg = map[token.Token]token.Token{token.EQL: token.NEQ, token.NEQ: token.EQL, token.LSS: token.GEQ, token.GEQ: token.LSS, token.GTR: token.LEQ, token.LEQ: token.GTR}
+
+func (e *addrEnv) constLit(x ast.Expr) *ast.BasicLit {
+	switch v := addrStrip(x).(type) {
+	case *ast.BasicLit:
+		return v
+	case *ast.Ident:
+		if e.subst[v.Name] != "" || e.alias[v.Name] != nil || len(e.assigns[v.Name]) > 0 {
+			return nil
+		}
+		if v.Obj != nil && v.Obj.Kind != ast.Con {
+			return nil
+		}
+		return e.pkg.consts[v.Name]
+	}
+	return nil
+}
+
+func (e *addrEnv) isLitLike(x ast.Expr) bool {
+	x = addrStrip(x)
+	if e.constLit(x) != nil {
+		return true
+	}
+	if u, ok := x.(*ast.UnaryExpr); ok && u.Op == token.SUB {
+		return e.constLit(u.X) != nil
+	}
+	return false
+}
+
+func addrLitText(l *ast.BasicLit) string {
+	switch l.Kind {
+	case token.STRING:
+		if s, err := strconv.Unquote(l.Value); err == nil {
+			return strconv.Quote(s)
+		}
+	case token.INT:
+		if v, err := strconv.ParseInt(l.Value, 0, 64); err == nil {
+			return strconv.FormatInt(v, 10)
+		}
+	}
+	return l.Value
+}
+
+// render prints x canonically as it reads at position `at` (alias expansion is position sensitive).
+func (e *addrEnv) render(x ast.Expr, at token.Pos) string { return e.r(x, at, 0, 0) }
+
+func (e *addrEnv) r(x ast.Expr, at token.Pos, prec, depth int) string {
+	if x == nil {
+		return ""
+	}
+	switch v := x.(type) {
+	case *ast.ParenExpr:
+		return e.r(v.X, at, prec, depth)
+	case *ast.BasicLit:
+		return addrLitText(v)
+	case *ast.Ident:
+		if s, ok := e.subst[v.Name]; ok {
+			return s
+		}
+		if a := e.alias[v.Name]; a != nil && depth < 8 && at > a.pos {
+			usable := true
+			for _, f := range a.free {
+				if e.assignedBetween(f, a.pos, at) {
+					usable = false
+				}
+			}
+			if usable {
+				return e.r(a.rhs, a.pos+1, prec, depth+1)
+			}
+		}
+		if l := e.constLit(v); l != nil {
+			return addrLitText(l)
+		}
+		return v.Name
+	case *ast.BinaryExpr:
+		p := v.Op.Precedence()
+		X, Y, op := v.X, v.Y, v.Op
+		if _, cmp := addrFlip[op]; cmp && e.isLitLike(X) && !e.isLitLike(Y) {
+			X, Y, op = Y, X, addrFlip[op]
+		}
+		s := e.r(X, at, p, depth) + " " + op.String() + " " + e.r(Y, at, p+1, depth)
+		if p < prec {
+			return "(" + s + ")"
+		}
+		return s
+	case *ast.UnaryExpr:
+		if v.Op == token.NOT {
+			switch in := addrStrip(v.X).(type) {
+			case *ast.BinaryExpr:
+				if n, ok := addrNeg[in.Op]; ok {
+					return e.r(&ast.BinaryExpr{X: in.X, Op: n, Y: in.Y}, at, prec, depth)
+				}
+			case *ast.UnaryExpr:
+				if in.Op == token.NOT {
+					return e.r(in.X, at, prec, depth)
+				}
+			}
+		}
+		return v.Op.String() + e.r(v.X, at, 6, depth)
+	case *ast.CallExpr:
+		if id, ok := v.Fun.(*ast.Ident); ok && id.Name == "len" && len(v.Args) == 1 {
+			if l := e.constLit(v.Args[0]); l != nil && l.Kind == token.STRING {
+				if s, err := strconv.Unquote(l.Value); err == nil {
+					return strconv.Itoa(len(s))
+				}
+			}
+		}
+		args := []string{}
+		for _, a := range v.Args {
+			args = append(args, e.r(a, at, 0, depth))
+		}
+		s := e.r(v.Fun, at, 6, depth) + "(" + strings.Join(args, ", ")
+		if v.Ellipsis.IsValid() {
+			s += "..."
+		}
+		return s + ")"
+	case *ast.SelectorExpr:
+		if id, ok := v.X.(*ast.Ident); ok && !e.isLocal(id) && e.alias[id.Name] == nil {
+			if c, ok := e.imports[id.Name]; ok {
+				return c + "." + v.Sel.Name
+			}
+		}
+		return e.r(v.X, at, 6, depth) + "." + v.Sel.Name
+	case *ast.IndexExpr:
+		return e.r(v.X, at, 6, depth) + "[" + e.r(v.Index, at, 0, depth) + "]"
+	case *ast.SliceExpr:
+		s := e.r(v.X, at, 6, depth) + "[" + e.r(v.Low, at, 0, depth) + ":" + e.r(v.High, at, 0, depth)
+		if v.Slice3 {
+			s += ":" + e.r(v.Max, at, 0, depth)
+		}
+		return s + "]"
+	case *ast.StarExpr:
+		return "*" + e.r(v.X, at, 6, depth)
+	}
+	return "?{" + src(x) + "}"
+}
+
+// addrOrLeaves flattens `a || b || c` (any nesting, parentheses) and `!(a && b)` into the list of disjuncts, in
+// evaluation order.
+func addrOrLeaves(x ast.Expr) []ast.Expr {
+	switch v := x.(type) {
+	case *ast.ParenExpr:
+		return addrOrLeaves(v.X)
+	case *ast.BinaryExpr:
+		if v.Op == token.LOR {
+			return append(addrOrLeaves(v.X), addrOrLeaves(v.Y)...)
+		}
+	case *ast.UnaryExpr:
+		if v.Op == token.NOT {
+			switch in := addrStrip(v.X).(type) {
+			case *ast.BinaryExpr:
+				if in.Op == token.LAND {
+					return append(addrOrLeaves(addrNot(in.X)), addrOrLeaves(addrNot(in.Y))...)
+				}
+			case *ast.UnaryExpr:
+				if in.Op == token.NOT {
+					return addrOrLeaves(in.X)
+				}
+			}
+		}
+	}
+	return []ast.Expr{x}
+}
+
+// ------------------------------------------------------------------------------------------------ guarded-exit normal form
+
+const (
+	addrEvExit = iota
+	addrEvAssign
+	addrEvOther
+)
+
+// addrEv: one step of the flattened body.  exit = "if any of `leaves` holds (always, when there are none) run `pre`
+// and return `ret`"; assign = an assignment statement executed unconditionally; other = anything else (opaque).
+type addrEv struct {
+	kind   int
+	leaves []ast.Expr
+	ret    *ast.ReturnStmt
+	as     *ast.AssignStmt
+	node   ast.Node
+	at     token.Pos // position the guard is evaluated at
+	end    token.Pos
+	deflt  bool
+}
+
+// addrTerminates: the block is `call(); call(); return …`.
+func addrTerminates(list []ast.Stmt) *ast.ReturnStmt {
+	if len(list) == 0 {
+		return nil
+	}
+	for _, s := range list[:len(list)-1] {
+		if _, ok := s.(*ast.ExprStmt); !ok {
+			return nil
+		}
+	}
+	r, _ := list[len(list)-1].(*ast.ReturnStmt)
+	return r
+}
+
+func addrSimple(s ast.Stmt) []addrEv {
+	if s == nil {
+		return nil
+	}
+	if as, ok := s.(*ast.AssignStmt); ok {
+		return []addrEv{{kind: addrEvAssign, as: as, node: as, at: as.Pos(), end: as.End()}}
+	}
+	return []addrEv{{kind: addrEvOther, node: s, at: s.Pos(), end: s.End()}}
+}
+
+func addrFlatten(list []ast.Stmt) []addrEv {
+	var evs []addrEv
+	for _, st := range list {
+		switch v := st.(type) {
+		case *ast.BlockStmt:
+			evs = append(evs, addrFlatten(v.List)...)
+		case *ast.ReturnStmt:
+			evs = append(evs, addrEv{kind: addrEvExit, ret: v, node: v, at: v.Pos(), end: v.End()})
+		case *ast.AssignStmt:
+			evs = append(evs, addrSimple(v)...)
+		case *ast.IfStmt:
+			evs = append(evs, addrFlattenIf(v)...)
+		case *ast.SwitchStmt:
+			evs = append(evs, addrFlattenSwitch(v)...)
+		default:
+			evs = append(evs, addrSimple(st)...)
+		}
+	}
+	return evs
+}
+
+func addrFlattenIf(v *ast.IfStmt) []addrEv {
+	evs := addrSimple(v.Init)
+	if r := addrTerminates(v.Body.List); r != nil {
+		evs = append(evs, addrEv{kind: addrEvExit, leaves: addrOrLeaves(v.Cond), ret: r, node: v, at: v.Cond.Pos(), end: v.Body.End()})
+		switch el := v.Else.(type) {
+		case *ast.BlockStmt:
+			evs = append(evs, addrFlatten(el.List)...)
+		case *ast.IfStmt:
+			evs = append(evs, addrFlattenIf(el)...)
+		}
+		return evs
+	}
+	if el, ok := v.Else.(*ast.BlockStmt); ok {
+		if r := addrTerminates(el.List); r != nil {
+			// `if C { S } else { return R }` is `if !C { return R }; S`
+			evs = append(evs, addrEv{kind: addrEvExit, leaves: addrOrLeaves(addrNot(v.Cond)), ret: r, node: v, at: v.Cond.Pos(), end: v.Cond.End()})
+			return append(evs, addrFlatten(v.Body.List)...)
+		}
+	}
+	return append(evs, addrEv{kind: addrEvOther, node: v, at: v.Pos(), end: v.End()})
+}
+
+func addrFlattenSwitch(v *ast.SwitchStmt) []addrEv {
+	opaque := append(addrSimple(v.Init), addrEv{kind: addrEvOther, node: v, at: v.Pos(), end: v.End()})
+	evs := addrSimple(v.Init)
+	var deflt *ast.CaseClause
+	emptySeen := false
+	for _, cs := range v.Body.List {
+		cc, ok := cs.(*ast.CaseClause)
+		if !ok {
+			return opaque
+		}
+		if cc.List == nil {
+			deflt = cc
+			continue
+		}
+		if len(cc.Body) == 0 {
+			emptySeen = true
+			continue
+		}
+		r := addrTerminates(cc.Body)
+		if r == nil || (emptySeen && v.Tag == nil) {
+			return opaque
+		}
+		var leaves []ast.Expr
+		for _, val := range cc.List {
+			if v.Tag != nil {
+				leaves = append(leaves, &ast.BinaryExpr{X: v.Tag, Op: token.EQL, Y: val})
+			} else {
+				leaves = append(leaves, addrOrLeaves(val)...)
+			}
+		}
+		evs = append(evs, addrEv{kind: addrEvExit, leaves: leaves, ret: r, node: cc, at: cc.Pos(), end: cc.End()})
+	}
+	if deflt != nil && len(deflt.Body) > 0 {
+		r := addrTerminates(deflt.Body)
+		if r == nil {
+			return opaque
+		}
+		evs = append(evs, addrEv{kind: addrEvExit, leaves: []ast.Expr{ast.NewIdent("$default")}, ret: r, node: deflt, at: deflt.Pos(), end: deflt.End(), deflt: true})
+	}
+	return evs
+}
+
+// addrReturns: every return statement of the body outside function literals.
+func addrReturns(body *ast.BlockStmt) []*ast.ReturnStmt {
+	var r []*ast.ReturnStmt
+	ast.Inspect(body, func(n ast.Node) bool {
+		switch v := n.(type) {
+		case *ast.FuncLit:
+			return false
+		case *ast.ReturnStmt:
+			r = append(r, v)
+		}
+		return true
+	})
+	return r
+}
+
+func (e *addrEnv) leafTexts(ev addrEv) []string {
+	var r []string
+	for _, l := range ev.leaves {
+		r = append(r, e.render(l, ev.at))
+	}
+	return r
+}
+
+func (e *addrEnv) resultTexts(r *ast.ReturnStmt) []string {
+	var t []string
+	for _, x := range r.Results {
+		t = append(t, e.render(x, r.Pos()))
+	}
+	return t
+}
+
+// isAliasDef: the event is the `x := pure` definition of an expanded alias (invisible in the normal form).
+func (e *addrEnv) isAliasDef(ev addrEv) bool {
+	if ev.kind != addrEvAssign || ev.as.Tok != token.DEFINE || len(ev.as.Lhs) != 1 {
+		return false
+	}
+	id, ok := ev.as.Lhs[0].(*ast.Ident)
+	return ok && e.alias[id.Name] != nil && e.alias[id.Name].pos == ev.as.Pos()
+}
+
+// isNoise: alias definitions and expression statements (logging …) cannot change a local string.
+func (e *addrEnv) isNoise(ev addrEv) bool {
+	if e.isAliasDef(ev) {
+		return true
+	}
+	if ev.kind == addrEvOther {
+		_, ok := ev.node.(*ast.ExprStmt)
+		return ok
+	}
+	return false
+}
+
+// ------------------------------------------------------------------------------------------------ pkg/policy: ExtractMailbox
+
+type addrPolicy struct {
+	pkg                                   *addrPkg
+	extract, parser, nameParser, domExtr  *ast.FuncDecl
+	canon, validate                       *ast.FuncDecl
+	dispatchOK, posOK, atomsOK, guardedOK bool
+	atoms, conds                          []string
+	fullRet, domRet                       *string
+}
+
+var addrStrRes = []string{"string", "error"}
+
+// addrShapeAtom: the closed vocabulary of name-shape conditions (subject $x); anything else stays as its text.
+// The bool says whether the condition indexes $x (and so needs the emptiness test before it).
+func addrShapeAtom(c string) (string, bool) {
+	switch c {
+	case `$x == ""`, `len($x) == 0`, `len($x) < 1`:
+		return "empty", false
+	case `$x[0] == '.'`:
+		return "leadDot", true
+	case `strings.HasPrefix($x, ".")`:
+		return "leadDot", false
+	case `$x[len($x) - 1] == '.'`:
+		return "trailDot", true
+	case `strings.HasSuffix($x, ".")`:
+		return "trailDot", false
+	case `strings.Contains($x, "..")`, `strings.Index($x, "..") >= 0`, `strings.Index($x, "..") != -1`, `strings.Index($x, "..") > -1`:
+		return "dotDot", false
+	}
+	return c, false
+}
+
+// addrInlineBool: leaf is `h($x)` with h an unexported (string) bool helper: the disjuncts under which h is true.
+func (p *addrPolicy) addrInlineBool(env *addrEnv, leaf ast.Expr, at token.Pos) ([]string, bool) {
+	ce, ok := addrStrip(leaf).(*ast.CallExpr)
+	if !ok || len(ce.Args) != 1 || env.render(ce.Args[0], at) != "$x" {
+		return nil, false
+	}
+	h := addrCallee(p.pkg, ce)
+	if h == nil || h.Body == nil || !addrSigIs(h, []string{"string"}, []string{"bool"}) {
+		return nil, false
+	}
+	he := addrNewEnv(p.pkg, h)
+	he.subst[addrParamNames(h.Type.Params)[0]] = "$x"
+	evs := addrFlatten(h.Body.List)
+	var out []string
+	for i, ev := range evs {
+		if he.isNoise(ev) {
+			continue
+		}
+		if ev.kind != addrEvExit || len(ev.ret.Results) != 1 {
+			return nil, false
+		}
+		res := he.render(ev.ret.Results[0], ev.ret.Pos())
+		if len(ev.leaves) > 0 {
+			if res != "true" {
+				return nil, false
+			}
+			out = append(out, he.leafTexts(ev)...)
+			continue
+		}
+		if i != len(evs)-1 {
+			return nil, false
+		}
+		if res != "false" {
+			for _, l := range addrOrLeaves(ev.ret.Results[0]) {
+				out = append(out, he.render(l, ev.ret.Pos()))
+			}
+		}
+	}
+	return out, true
+}
+
+// addrInlineErr: h is an unexported (string) error helper made of `if C { return <error> }` … `return nil`.
+func (p *addrPolicy) addrInlineErr(h *ast.FuncDecl) ([]string, bool) {
+	if h == nil || h.Body == nil || !addrSigIs(h, []string{"string"}, []string{"error"}) {
+		return nil, false
+	}
+	he := addrNewEnv(p.pkg, h)
+	he.subst[addrParamNames(h.Type.Params)[0]] = "$x"
+	evs := addrFlatten(h.Body.List)
+	var out []string
+	for i, ev := range evs {
+		if he.isNoise(ev) {
+			continue
+		}
+		if ev.kind != addrEvExit || len(ev.ret.Results) != 1 {
+			return nil, false
+		}
+		res := he.render(ev.ret.Results[0], ev.ret.Pos())
+		if len(ev.leaves) > 0 {
+			if res == "nil" {
+				return nil, false
+			}
+			out = append(out, he.leafTexts(ev)...)
+			continue
+		}
+		if i != len(evs)-1 || res != "nil" {
+			return nil, false
+		}
+	}
+	return out, true
+}
+
+func addrAnalysePolicy() *addrPolicy {
+	p := &addrPolicy{pkg: addrLoadPkg("pkg/policy")}
+	pk := p.pkg
+	p.validate = pk.funcs["ValidateDomainPart"]
+	fd := pk.methods["Addressing.ExtractMailbox"]
+	p.extract = fd
+	if fd == nil || fd.Body == nil || !addrSigIs(fd, []string{"string"}, addrStrRes) {
+		return p
+	}
+	env := addrNewEnv(pk, fd)
+	evs := addrFlatten(fd.Body.List)
+	i := 0
+	skip := func() {
+		for i < len(evs) && env.isNoise(evs[i]) {
+			i++
+		}
+	}
+	rejecting := func(r *ast.ReturnStmt) bool {
+		if r == nil || len(r.Results) != 2 {
+			return false
+		}
+		t := env.resultTexts(r)
+		return t[0] == `""` && t[1] != "nil"
+	}
+
+	// 1. the first thing ExtractMailbox does: domain naming goes to the domain extractor
+	var dispatchRet *ast.ReturnStmt
+	skip()
+	if i < len(evs) && evs[i].kind == addrEvExit && len(evs[i].leaves) == 1 && len(evs[i].ret.Results) == 1 &&
+		env.leafTexts(evs[i])[0] == "$recv.Config.MailboxNaming == config.DomainNaming" {
+		if ce, ok := evs[i].ret.Results[0].(*ast.CallExpr); ok && len(ce.Args) == 1 && env.render(ce.Args[0], ce.Pos()) == "$p0" {
+			if c := addrCallee(pk, ce); c != nil && c.Body != nil && addrSigIs(c, []string{"string"}, addrStrRes) {
+				p.dispatchOK, p.domExtr, dispatchRet = true, c, evs[i].ret
+				i++
+			}
+		}
+	}
+
+	// 2. `L, D, err := <raw parser>($p0)`, then `X, E := <name parser>(L)`
+	subject, errName := "", ""
+	var nameAssign *ast.AssignStmt
+	local := ""
+	parserAt := token.NoPos
+	for ; i < len(evs); i++ {
+		ev := evs[i]
+		if ev.kind != addrEvAssign || len(ev.as.Rhs) != 1 {
+			continue
+		}
+		ce, ok := ev.as.Rhs[0].(*ast.CallExpr)
+		if !ok || len(ce.Args) != 1 {
+			continue
+		}
+		c := addrCallee(pk, ce)
+		if c == nil {
+			continue
+		}
+		if p.parser == nil {
+			if len(ev.as.Lhs) == 3 && addrSigIs(c, []string{"string"}, []string{"string", "string", "error"}) && env.render(ce.Args[0], ce.Pos()) == "$p0" {
+				l, ok0 := ev.as.Lhs[0].(*ast.Ident)
+				d, ok1 := ev.as.Lhs[1].(*ast.Ident)
+				if ok0 && ok1 && l.Name != "_" {
+					p.parser, local, parserAt = c, l.Name, ev.at
+					if d.Name != "_" {
+						env.subst[d.Name] = "$dom"
+					}
+				}
+			}
+			continue
+		}
+		if len(ev.as.Lhs) == 2 && addrSigIs(c, []string{"string"}, addrStrRes) {
+			a, okA := ce.Args[0].(*ast.Ident)
+			x, okX := ev.as.Lhs[0].(*ast.Ident)
+			er, okE := ev.as.Lhs[1].(*ast.Ident)
+			if okA && okX && okE && a.Name == local && x.Name != "_" && er.Name != "_" && !env.assignedBetween(local, parserAt, ev.at) {
+				p.nameParser, subject, errName, nameAssign = c, x.Name, er.Name, ev.as
+				i++
+				break
+			}
+		}
+	}
+	if nameAssign == nil {
+		return p
+	}
+	// the subject keeps its value from here on
+	if env.assignedBetween(subject, nameAssign.Pos(), fd.Body.End()) {
+		return p
+	}
+	delete(env.alias, subject)
+	env.subst[subject] = "$x"
+
+	// 3. the parser's error is returned, then come the rejecting name-shape conditions
+	skip()
+	if !(i < len(evs) && evs[i].kind == addrEvExit && rejecting(evs[i].ret) && len(evs[i].leaves) == 1 && env.leafTexts(evs[i])[0] == errName+" != nil") {
+		return p
+	}
+	i++
+	shapeEnd := token.NoPos
+	for ; i < len(evs); i++ {
+		ev := evs[i]
+		if env.isNoise(ev) {
+			continue
+		}
+		if ev.kind == addrEvAssign && len(ev.as.Lhs) == 1 && len(ev.as.Rhs) == 1 && i+1 < len(evs) {
+			// `if err := checkShape(X); err != nil { return "", err }`
+			ce, isCall := ev.as.Rhs[0].(*ast.CallExpr)
+			id, isID := ev.as.Lhs[0].(*ast.Ident)
+			nx := evs[i+1]
+			if isCall && isID && len(ce.Args) == 1 && env.render(ce.Args[0], ev.at) == "$x" && nx.kind == addrEvExit && rejecting(nx.ret) &&
+				len(nx.leaves) == 1 && env.leafTexts(nx)[0] == id.Name+" != nil" {
+				if cs, good := p.addrInlineErr(addrCallee(pk, ce)); good {
+					p.conds = append(p.conds, cs...)
+					shapeEnd = nx.end
+					i++
+					continue
+				}
+			}
+			break
+		}
+		if ev.kind != addrEvExit || len(ev.leaves) == 0 || !rejecting(ev.ret) {
+			break
+		}
+		for k, l := range ev.leaves {
+			if cs, good := p.addrInlineBool(env, l, ev.at); good {
+				p.conds = append(p.conds, cs...)
+			} else {
+				p.conds = append(p.conds, env.leafTexts(ev)[k])
+			}
+		}
+		shapeEnd = ev.end
+	}
+	if len(p.conds) > 0 {
+		p.atomsOK, p.guardedOK = true, true
+		seen := map[string]bool{}
+		for _, c := range p.conds {
+			a, idx := addrShapeAtom(c)
+			if idx && !seen["empty"] {
+				p.guardedOK = false
+			}
+			if !seen[a] {
+				seen[a] = true
+				p.atoms = append(p.atoms, a)
+			}
+		}
+		sort.Strings(p.atoms)
+	}
+
+	// 4. position: nothing returns a name and nothing looks at local / full naming before the shape test is over;
+	//    afterwards local naming returns the subject
+	if p.atomsOK {
+		pos := true
+		for _, r := range addrReturns(fd.Body) {
+			if r.Pos() < shapeEnd && r != dispatchRet && !rejecting(r) {
+				pos = false
+			}
+		}
+		ast.Inspect(fd.Body, func(n ast.Node) bool {
+			if n == nil || n.Pos() >= shapeEnd {
+				return false
+			}
+			if se, isSel := n.(*ast.SelectorExpr); isSel {
+				if s := env.render(se, se.Pos()); s == "config.LocalNaming" || s == "config.FullNaming" {
+					pos = false
+				}
 			}
 			return true
 		})
+		localRet := false
+		for _, ev := range evs {
+			if ev.kind == addrEvExit && ev.at >= shapeEnd && len(ev.leaves) == 1 && env.leafTexts(ev)[0] == "$recv.Config.MailboxNaming == config.LocalNaming" {
+				if t := env.resultTexts(ev.ret); len(t) == 2 && t[0] == "$x" && t[1] == "nil" {
+					localRet = true
+				}
+			}
+		}
+		p.posOK = pos && localRet
+	}
+
+	// 5. the naming returns
+	canonOf := func(pk *addrPkg, x ast.Expr) (*ast.FuncDecl, int) {
+		var c *ast.FuncDecl
+		n := 0
+		ast.Inspect(x, func(m ast.Node) bool {
+			if ce, isCall := m.(*ast.CallExpr); isCall {
+				if f := addrCallee(pk, ce); f != nil && f.Body != nil && addrSigIs(f, []string{"string"}, []string{"string"}) {
+					if c != f {
+						n++
+					}
+					c = f
+				}
+			}
+			return true
+		})
+		return c, n
+	}
+	success := func(e *addrEnv, body *ast.BlockStmt) []*ast.ReturnStmt {
+		var out []*ast.ReturnStmt
+		for _, r := range addrReturns(body) {
+			if len(r.Results) == 2 && e.render(r.Results[1], r.Pos()) == "nil" {
+				out = append(out, r)
+			}
+		}
+		return out
+	}
+	var fullRets []*ast.ReturnStmt
+	for _, r := range success(env, fd.Body) {
+		if env.render(r.Results[0], r.Pos()) != "$x" {
+			fullRets = append(fullRets, r)
+		}
+	}
+	var domRets []*ast.ReturnStmt
+	var denv *addrEnv
+	if de := p.domExtr; de != nil {
+		denv = addrNewEnv(pk, de)
+		// $dom = the variable ValidateDomainPart vouches for
+		var validated []string
+		ast.Inspect(de.Body, func(n ast.Node) bool {
+			if ce, isCall := n.(*ast.CallExpr); isCall && len(ce.Args) == 1 && p.validate != nil && addrCallee(pk, ce) == p.validate {
+				if a, isA := ce.Args[0].(*ast.Ident); isA {
+					validated = append(validated, a.Name)
+				}
+			}
+			return true
+		})
+		if len(validated) == 1 {
+			delete(denv.alias, validated[0])
+			denv.subst[validated[0]] = "$dom"
+		}
+		domRets = success(denv, de.Body)
+	}
+	// $canon = the one (string) string helper the naming returns go through (the same one in both)
+	var c1, c2 *ast.FuncDecl
+	n1, n2 := 0, 0
+	if len(fullRets) == 1 {
+		c1, n1 = canonOf(pk, fullRets[0].Results[0])
+	}
+	if len(domRets) == 1 {
+		c2, n2 = canonOf(pk, domRets[0].Results[0])
+	}
+	switch {
+	case n1 == 1 && n2 == 1 && c1 == c2, n1 == 1 && n2 == 0:
+		p.canon = c1
+	case n1 == 0 && n2 == 1:
+		p.canon = c2
+	}
+	if len(fullRets) == 1 {
+		if p.canon != nil {
+			env.subst[p.canon.Name.Name] = "$canon"
+		}
+		s := env.render(fullRets[0].Results[0], fullRets[0].Pos())
+		p.fullRet = &s
+	}
+	if len(domRets) == 1 {
+		if p.canon != nil {
+			denv.subst[p.canon.Name.Name] = "$canon"
+		}
+		s := denv.render(domRets[0].Results[0], domRets[0].Pos())
+		p.domRet = &s
+	}
+	return p
+}
+
+var (
+	addrReHasPrefix = regexp.MustCompile(`^(!=|==)?strings\.HasPrefix\((\$p0(?:\[1:\])?), ("(?:[^"\\]|\\.)*")\)$`)
+	addrReTagged    = regexp.MustCompile(`^("(?:[^"\\]|\\.)*") \+ strings\.ToLower\(\$p0\[(\d+):\]\)$`)
+)
+
+// addrCanonShape: canonicalDomain(d) is "LIT + lower(d[N:]) when d starts with LIT, lower(d) otherwise" in any
+// if / else / switch arrangement.
+func (p *addrPolicy) addrCanonShape() (string, int, bool) {
+	fd := p.canon
+	if fd == nil || fd.Body == nil {
+		return "", 0, false
+	}
+	env := addrNewEnv(p.pkg, fd)
+	var evs []addrEv
+	for _, ev := range addrFlatten(fd.Body.List) {
+		if !env.isNoise(ev) {
+			evs = append(evs, ev)
+		}
+	}
+	if len(evs) != 2 || evs[0].kind != addrEvExit || evs[1].kind != addrEvExit || len(evs[0].leaves) != 1 || len(evs[1].leaves) != 0 ||
+		len(evs[0].ret.Results) != 1 || len(evs[1].ret.Results) != 1 {
+		return "", 0, false
+	}
+	cond := env.leafTexts(evs[0])[0]
+	tagged, plain := env.resultTexts(evs[0].ret)[0], env.resultTexts(evs[1].ret)[0]
+	neg := strings.HasPrefix(cond, "!")
+	if neg {
+		cond = cond[1:]
+		tagged, plain = plain, tagged
+	}
+	m := addrReHasPrefix.FindStringSubmatch(cond)
+	t := addrReTagged.FindStringSubmatch(tagged)
+	if m == nil || t == nil || m[1] != "" || m[2] != "$p0" || m[3] != t[1] || plain != "strings.ToLower($p0)" {
+		return "", 0, false
+	}
+	lit, err := strconv.Unquote(m[3])
+	n, err2 := strconv.Atoi(t[2])
+	if err != nil || err2 != nil {
+		return "", 0, false
+	}
+	return lit, n, true
+}
+
+// addrValidateTag: in ValidateDomainPart the argument of net.ParseIP is `$p0[S : len($p0)-1]` where the local S is
+// defined as 1 and set to N under `strings.HasPrefix($p0[1:], LIT)` and nowhere else.
+func (p *addrPolicy) addrValidateTag() (string, int, bool) {
+	fd := p.validate
+	if fd == nil || fd.Body == nil {
+		return "", 0, false
+	}
+	env := addrNewEnv(p.pkg, fd)
+	var ipCalls []*ast.CallExpr
+	hasPrefix := 0
+	ast.Inspect(fd.Body, func(n ast.Node) bool {
+		if ce, ok := n.(*ast.CallExpr); ok {
+			switch env.render(ce.Fun, ce.Pos()) {
+			case "net.ParseIP":
+				ipCalls = append(ipCalls, ce)
+			case "strings.HasPrefix":
+				hasPrefix++
+			}
+		}
+		return true
+	})
+	if len(ipCalls) != 1 || hasPrefix != 1 || len(ipCalls[0].Args) != 1 {
+		return "", 0, false
+	}
+	se, ok := addrStrip(ipCalls[0].Args[0]).(*ast.SliceExpr)
+	if !ok || se.Slice3 || se.Low == nil || se.High == nil || env.render(se.X, se.Pos()) != "$p0" || env.render(se.High, se.Pos()) != "len($p0) - 1" {
+		return "", 0, false
+	}
+	sv, ok := se.Low.(*ast.Ident)
+	if !ok || len(env.assigns[sv.Name]) != 2 {
+		return "", 0, false
+	}
+	lit, n, found, defOK := "", 0, false, false
+	ast.Inspect(fd.Body, func(x ast.Node) bool {
+		switch v := x.(type) {
+		case *ast.AssignStmt:
+			if v.Tok == token.DEFINE && len(v.Lhs) == 1 && len(v.Rhs) == 1 && src(v.Lhs[0]) == sv.Name && env.render(v.Rhs[0], v.Pos()) == "1" && v.Pos() < se.Pos() {
+				defOK = true
+			}
+		case *ast.IfStmt:
+			if v.Init != nil || v.Else != nil || len(v.Body.List) != 1 || v.End() > ipCalls[0].Pos() {
+				return true
+			}
+			as, ok := v.Body.List[0].(*ast.AssignStmt)
+			if !ok || as.Tok != token.ASSIGN || len(as.Lhs) != 1 || len(as.Rhs) != 1 || src(as.Lhs[0]) != sv.Name {
+				return true
+			}
+			m := addrReHasPrefix.FindStringSubmatch(env.render(v.Cond, v.Cond.Pos()))
+			if m == nil || m[1] != "" || m[2] != "$p0[1:]" {
+				return true
+			}
+			l, err := strconv.Unquote(m[3])
+			k, err2 := strconv.Atoi(env.render(as.Rhs[0], as.Pos()))
+			if err == nil && err2 == nil {
+				lit, n, found = l, k, true
+			}
+		}
+		return true
+	})
+	return lit, n, found && defOK
+}
+
+// ------------------------------------------------------------------------------------------------ tables of Gen/Addr.lean
+
+// addrMemberLits: the string literals (or string constants) whose membership is tested with strings.IndexByte /
+// IndexRune / ContainsRune in fd or in the unexported helpers it calls.
+func addrMemberLits(p *addrPkg, fd *ast.FuncDecl) []string {
+	var res []string
+	for _, f := range addrClosure(p, fd) {
+		if f.Body == nil {
+			continue
+		}
+		env := addrNewEnv(p, f)
+		ast.Inspect(f.Body, func(n ast.Node) bool {
+			ce, ok := n.(*ast.CallExpr)
+			if !ok || len(ce.Args) != 2 {
+				return true
+			}
+			switch env.render(ce.Fun, ce.Pos()) {
+			case "strings.IndexByte", "strings.IndexRune", "strings.ContainsRune":
+				if l := env.constLit(ce.Args[0]); l != nil && l.Kind == token.STRING {
+					if s, err := strconv.Unquote(l.Value); err == nil {
+						res = append(res, s)
+					}
+				}
+			}
+			return true
+		})
+	}
+	return res
+}
+
+// addrCmp: the unique comparison `<lhs> <op> <int>` (literal or constant, either side) in fd and the unexported
+// helpers it calls, where <lhs> is identified by its canonical rendering under the roles `mark` assigns in each
+// function.
+func addrCmp(p *addrPkg, fd *ast.FuncDecl, mark func(*addrEnv, *ast.FuncDecl), lhs, wantOp string) string {
+	type hit struct {
+		op string
+		v  int
+	}
+	var hits []hit
+	for _, f := range addrClosure(p, fd) {
+		if f.Body == nil {
+			continue
+		}
+		env := addrNewEnv(p, f)
+		if mark != nil {
+			mark(env, f)
+		}
+		ast.Inspect(f.Body, func(n ast.Node) bool {
+			be, ok := n.(*ast.BinaryExpr)
+			if !ok {
+				return true
+			}
+			if _, cmp := addrFlip[be.Op]; !cmp {
+				return true
+			}
+			X, Y, op := be.X, be.Y, be.Op
+			if env.isLitLike(X) && !env.isLitLike(Y) {
+				X, Y, op = Y, X, addrFlip[op]
+			}
+			l := env.constLit(Y)
+			if l == nil || l.Kind != token.INT || env.render(X, be.Pos()) != lhs || (wantOp != "" && wantOp != op.String()) {
+				return true
+			}
+			if v, err := strconv.ParseInt(l.Value, 0, 32); err == nil {
+				hits = append(hits, hit{op.String(), int(v)})
+			}
+			return true
+		})
+	}
+	if len(hits) != 1 {
+		return "none"
+	}
+	return fmt.Sprintf("some (%s, %d)", leanStr(hits[0].op), hits[0].v)
+}
+
+var addrReLenParam = regexp.MustCompile(`^len\(\$p\d+\)$`)
+
+// addrMarkLoopIndex: $i = the index of a loop that runs over a parameter (`for i := 0; i < len(P); …`, or the key of
+// `range P` / `range []byte(P)`).
+func addrMarkLoopIndex(env *addrEnv, f *ast.FuncDecl) {
+	isParam := func(x ast.Expr) bool {
+		return strings.HasPrefix(env.render(x, x.Pos()), "$p") && !strings.ContainsAny(env.render(x, x.Pos()), " [(")
+	}
+	ast.Inspect(f.Body, func(n ast.Node) bool {
+		switch v := n.(type) {
+		case *ast.ForStmt:
+			as, ok := v.Init.(*ast.AssignStmt)
+			if !ok || len(as.Lhs) != 1 || len(as.Rhs) != 1 || env.render(as.Rhs[0], as.Pos()) != "0" {
+				return true
+			}
+			id, ok := as.Lhs[0].(*ast.Ident)
+			be, ok2 := v.Cond.(*ast.BinaryExpr)
+			if !ok || !ok2 || be.Op != token.LSS || src(be.X) != id.Name {
+				return true
+			}
+			if addrReLenParam.MatchString(env.render(be.Y, be.Pos())) {
+				env.subst[id.Name] = "$i"
+			}
+		case *ast.RangeStmt:
+			id, ok := v.Key.(*ast.Ident)
+			if !ok || id.Name == "_" {
+				return true
+			}
+			x := v.X
+			if ce, ok := x.(*ast.CallExpr); ok && len(ce.Args) == 1 && src(ce.Fun) == "[]byte" {
+				x = ce.Args[0]
+			}
+			if isParam(x) {
+				env.subst[id.Name] = "$i"
+			}
+		}
+		return true
+	})
+}
+
+// addrMarkCounter: $n = the one local that is both incremented with ++ and reset to 0 (the label length counter).
+func addrMarkCounter(env *addrEnv, f *ast.FuncDecl) {
+	inc, zero := map[string]bool{}, map[string]bool{}
+	ast.Inspect(f.Body, func(n ast.Node) bool {
+		switch v := n.(type) {
+		case *ast.IncDecStmt:
+			if id, ok := v.X.(*ast.Ident); ok && v.Tok == token.INC {
+				inc[id.Name] = true
+			}
+		case *ast.AssignStmt:
+			if v.Tok == token.ASSIGN && len(v.Lhs) == 1 && len(v.Rhs) == 1 && env.render(v.Rhs[0], v.Pos()) == "0" {
+				if id, ok := v.Lhs[0].(*ast.Ident); ok {
+					zero[id.Name] = true
+				}
+			}
+			if v.Tok == token.ADD_ASSIGN && len(v.Lhs) == 1 && len(v.Rhs) == 1 && env.render(v.Rhs[0], v.Pos()) == "1" {
+				if id, ok := v.Lhs[0].(*ast.Ident); ok {
+					inc[id.Name] = true
+				}
+			}
+		}
+		return true
+	})
+	var c []string
+	for n := range inc {
+		if zero[n] && env.subst[n] == "" {
+			c = append(c, n)
+		}
+	}
+	if len(c) == 1 {
+		env.subst[c[0]] = "$n"
+	}
+}
+
+// addrEmitTables writes Gen/Addr.lean (called from extractAddr in main.go).
+func addrEmitTables(g *genFile) {
+	p := addrAnalysePolicy()
+	bl := func(l []string) string {
+		if len(l) != 1 {
+			return "none"
+		}
+		return "some " + byteList(l[0])
+	}
+	var sp, nsp []string
+	if p.parser != nil {
+		sp = addrMemberLits(p.pkg, p.parser)
+	}
+	if p.nameParser != nil {
+		nsp = addrMemberLits(p.pkg, p.nameParser)
+	}
+	g.def("specials", "Option (List Nat)", bl(sp),
+		"bytes of the one literal whose membership the raw address parser (the 3-result function ExtractMailbox calls with its parameter: parseEmailAddress) tests with strings.IndexByte — the specials copied unquoted")
+	g.def("nameSpecials", "Option (List Nat)", bl(nsp),
+		"bytes of the one literal whose membership the mailbox-name parser (the function ExtractMailbox calls with result 0 of the raw parser: parseMailboxName) tests with strings.IndexByte")
+	cmp := func(name string, fd *ast.FuncDecl, mark func(*addrEnv, *ast.FuncDecl), lhs, op, comment string) {
+		val := "none"
+		if fd != nil {
+			val = addrCmp(p.pkg, fd, mark, lhs, op)
+		}
+		g.def(name, "Option (String × Nat)", val, comment)
+	}
+	cmp("maxAddr", p.parser, nil, "len($p0)", "", "raw address parser: the one comparison of len(parameter) with an integer (operator, bound)")
+	cmp("maxLocal", p.parser, addrMarkLoopIndex, "$i", ">", "raw address parser: the one `>` comparison of the index of the loop over the parameter with an integer (local-part length, index of the unquoted '@')")
+	cmp("maxDomain", p.validate, nil, "len($p0)", ">", "ValidateDomainPart: the one `len(parameter) > N` (a local holding len(parameter) counts as len(parameter))")
+	cmp("minBracket", p.validate, nil, "len($p0)", ">=", "ValidateDomainPart: the one `len(parameter) >= N` (minimum length of a bracketed IP literal)")
+	cmp("maxLabel", p.validate, addrMarkCounter, "$n", "", "ValidateDomainPart: the one comparison of the label-length counter (the local that is ++'ed and reset to 0) with an integer")
+}
+
+// ------------------------------------------------------------------------------------------------ read side: controllers
+
+type addr2Row struct {
+	file, fn        string
+	canon, onlyCano bool
+}
+
+// addr2CtxParam: the name of the parameter of type *web.Context.
+func addr2CtxParam(imports map[string]string, fd *ast.FuncDecl) string {
+	if fd.Type.Params == nil {
+		return ""
+	}
+	for _, f := range fd.Type.Params.List {
+		st, ok := f.Type.(*ast.StarExpr)
+		if !ok {
+			continue
+		}
+		se, ok := st.X.(*ast.SelectorExpr)
+		if !ok || se.Sel.Name != "Context" {
+			continue
+		}
+		if id, ok := se.X.(*ast.Ident); ok && imports[id.Name] == "web" && len(f.Names) == 1 && f.Names[0].Name != "_" {
+			return f.Names[0].Name
+		}
+	}
+	return ""
+}
+
+// addr2IsNameIndex: an index expression `<anything>["name"]`.
+func addr2IsNameIndex(n ast.Node) (*ast.IndexExpr, bool) {
+	ie, ok := n.(*ast.IndexExpr)
+	if !ok {
+		return nil, false
+	}
+	if s, ok := strLitVal(ie.Index); ok && s == "name" {
+		return ie, true
+	}
+	return nil, false
+}
+
+// addr2IsVarsName: exactly `<ctx>.Vars["name"]`.
+func addr2IsVarsName(n ast.Node, ctx string) (*ast.IndexExpr, bool) {
+	ie, ok := addr2IsNameIndex(n)
+	if !ok || ctx == "" {
+		return nil, false
+	}
+	se, ok := ie.X.(*ast.SelectorExpr)
+	if !ok || se.Sel.Name != "Vars" {
+		return nil, false
+	}
+	id, ok := se.X.(*ast.Ident)
+	return ie, ok && id.Name == ctx
+}
+
+// addr2IsCanonCall: `<ctx>.Manager.MailboxForAddress(<one argument>)`.
+func addr2IsCanonCall(n ast.Node, ctx string) (*ast.CallExpr, bool) {
+	ce, ok := n.(*ast.CallExpr)
+	if !ok || len(ce.Args) != 1 || ctx == "" {
+		return nil, false
+	}
+	se, ok := ce.Fun.(*ast.SelectorExpr)
+	if !ok || se.Sel.Name != "MailboxForAddress" {
+		return nil, false
+	}
+	m, ok := se.X.(*ast.SelectorExpr)
+	if !ok || m.Sel.Name != "Manager" {
+		return nil, false
+	}
+	id, ok := m.X.(*ast.Ident)
+	return ce, ok && id.Name == ctx
+}
+
+// addr2CanonHelper: fd is `func k(…ctx *web.Context…) (string, error) { return ctx.Manager.MailboxForAddress(ctx.Vars["name"]) }`.
+// Returns the index of the context parameter, or -1.
+func addr2CanonHelper(pk *addrPkg, fd *ast.FuncDecl) int {
+	if fd == nil || fd.Body == nil || fd.Recv != nil {
+		return -1
+	}
+	ctx := addr2CtxParam(addrImports(pk.fileOf[fd]), fd)
+	if ctx == "" || len(fd.Body.List) != 1 {
+		return -1
+	}
+	r, ok := fd.Body.List[0].(*ast.ReturnStmt)
+	if !ok || len(r.Results) != 1 {
+		return -1
+	}
+	ce, ok := addr2IsCanonCall(r.Results[0], ctx)
+	if !ok {
+		return -1
+	}
+	if _, ok := addr2IsVarsName(ce.Args[0], ctx); !ok {
+		return -1
+	}
+	for i, n := range addrParamNames(fd.Type.Params) {
+		if n == ctx {
+			return i
+		}
+	}
+	return -1
+}
+
+// addr2Analyse: one controller function.  reads = the index expressions it accounts for when canon holds.
+func addr2Analyse(pk *addrPkg, fd *ast.FuncDecl) (row addr2Row, isRow bool, accounted int) {
+	row = addr2Row{file: pk.relOf[fd], fn: fd.Name.Name}
+	ctx := addr2CtxParam(addrImports(pk.fileOf[fd]), fd)
+	if ctx == "" || fd.Body == nil {
+		return row, false, 0
+	}
+	if addr2CanonHelper(pk, fd) >= 0 {
+		return row, false, 1
+	}
+	// every way this function gets at the name: direct reads and calls of a canonical helper with its own context
+	var reads []ast.Node
+	ast.Inspect(fd.Body, func(n ast.Node) bool {
+		if ie, ok := addr2IsVarsName(n, ctx); ok {
+			reads = append(reads, ie)
+		}
+		if ce, ok := n.(*ast.CallExpr); ok {
+			if k := addrCallee(pk, ce); k != nil {
+				if idx := addr2CanonHelper(pk, k); idx >= 0 && idx < len(ce.Args) && src(ce.Args[idx]) == ctx {
+					reads = append(reads, ce)
+				}
+			}
+		}
+		return true
+	})
+	if len(reads) == 0 {
+		return row, false, 0
+	}
+	sort.Slice(reads, func(i, j int) bool { return reads[i].Pos() < reads[j].Pos() })
+	first := reads[0]
+	env := addrNewEnv(pk, fd)
+	// the canonical statement: an unconditional `v, err := <ctx>.Manager.MailboxForAddress(<ctx>.Vars["name"])`
+	// (or `:= helper(ctx)`, or the argument is a local defined as `<ctx>.Vars["name"]` and used only there)
+	var call *ast.CallExpr
+	for _, ev := range addrFlatten(fd.Body.List) {
+		if ev.kind != addrEvAssign || !(ev.as.Pos() <= first.Pos() && first.End() <= ev.as.End()) {
+			continue
+		}
+		as := ev.as
+		if len(as.Rhs) != 1 {
+			break
+		}
+		// `raw := ctx.Vars["name"]` — look at the single use of raw instead
+		if len(as.Lhs) == 1 && as.Rhs[0] == ast.Expr(first.(ast.Expr)) {
+			id, ok := as.Lhs[0].(*ast.Ident)
+			if !ok || env.alias[id.Name] == nil {
+				break
+			}
+			uses := 0
+			var useCall *ast.CallExpr
+			var useAssign *ast.AssignStmt
+			for _, ev2 := range addrFlatten(fd.Body.List) {
+				if ev2.kind == addrEvAssign && len(ev2.as.Rhs) == 1 && len(ev2.as.Lhs) == 2 {
+					if ce, ok := addr2IsCanonCall(ev2.as.Rhs[0], ctx); ok && src(ce.Args[0]) == id.Name {
+						useCall, useAssign = ce, ev2.as
+					}
+				}
+			}
+			ast.Inspect(fd.Body, func(n ast.Node) bool {
+				if x, ok := n.(*ast.Ident); ok && x.Name == id.Name {
+					uses++
+				}
+				return true
+			})
+			if useCall != nil && uses == 2 { // the definition and the argument
+				if v, ok := useAssign.Lhs[0].(*ast.Ident); ok && v.Name != "_" {
+					call = useCall
+				}
+			}
+			break
+		}
+		if len(as.Lhs) != 2 {
+			break
+		}
+		if v, ok := as.Lhs[0].(*ast.Ident); !ok || v.Name == "_" {
+			break
+		}
+		if ce, ok := addr2IsCanonCall(as.Rhs[0], ctx); ok && ce.Args[0] == ast.Expr(first.(ast.Expr)) {
+			call = ce
+		} else if ce, ok := as.Rhs[0].(*ast.CallExpr); ok && ast.Node(ce) == first {
+			call = ce
+		}
+		break
+	}
+	if call == nil {
+		return row, true, 0
+	}
+	row.canon = true
+	clean := len(reads) == 1
+	ast.Inspect(fd.Body, func(n ast.Node) bool {
+		if n == nil || n.Pos() >= call.Pos() {
+			// a node starting at or after the call (its own Fun included) is not "before" it; neither are its children
+			return false
+		}
+		switch v := n.(type) {
+		case *ast.SelectorExpr:
+			if id, ok := v.X.(*ast.Ident); ok && id.Name == ctx && (v.Sel.Name == "Manager" || v.Sel.Name == "MsgHub") {
+				clean = false
+			}
+		case *ast.Ident:
+			if v.Name == "msgHub" || v.Name == "MsgHub" || v.Name == "Manager" {
+				clean = false
+			}
+		}
+		return true
+	})
+	row.onlyCano = clean
+	acc := 0
+	if _, direct := first.(*ast.IndexExpr); direct && clean {
+		acc = 1
+	}
+	return row, true, acc
+}
+
+// addr2RouteHandlerName: `web.Handler(X)` -> X; anything else -> its source text (which matches no table entry).
+func addr2RouteHandlerName(imports map[string]string, e ast.Expr) string {
+	if ce, ok := e.(*ast.CallExpr); ok && len(ce.Args) == 1 {
+		if se, ok := ce.Fun.(*ast.SelectorExpr); ok && se.Sel.Name == "Handler" {
+			if id, ok := se.X.(*ast.Ident); ok && imports[id.Name] == "web" {
+				if id, ok := ce.Args[0].(*ast.Ident); ok {
+					return id.Name
+				}
+			}
+		}
+	}
+	return src(e)
+}
+
+// ------------------------------------------------------------------------------------------------ POP3
+
+// addr2Pop3Verbatim: the session field handed to Store.GetMessages (the mailbox key) is only ever assigned
+// `<[]string parameter>[0]` inside the handler that has the USER clause, that parameter is never written, and it is
+// result 1 of the command parser, whose result 1 is `W[1:]` for `W := strings.Split(<line>, " ")`.
+func addr2Pop3Verbatim(pk *addrPkg) bool {
+	if pk.broken {
+		return false
+	}
+	// the key field: every GetMessages call is `<x>.GetMessages(<recv>.F)` with one F
+	field := ""
+	okField := true
+	eachSessionMethod := func(f func(fd *ast.FuncDecl, recv string)) {
+		names := []string{}
+		for k := range pk.methods {
+			names = append(names, k)
+		}
+		sort.Strings(names)
+		for _, k := range names {
+			fd := pk.methods[k]
+			if fd.Body == nil || fd.Recv == nil || len(fd.Recv.List) != 1 || len(fd.Recv.List[0].Names) != 1 {
+				continue
+			}
+			f(fd, fd.Recv.List[0].Names[0].Name)
+		}
+	}
+	eachSessionMethod(func(fd *ast.FuncDecl, recv string) {
+		ast.Inspect(fd.Body, func(n ast.Node) bool {
+			ce, ok := n.(*ast.CallExpr)
+			if !ok {
+				return true
+			}
+			se, ok := ce.Fun.(*ast.SelectorExpr)
+			if !ok || se.Sel.Name != "GetMessages" {
+				return true
+			}
+			if len(ce.Args) != 1 {
+				okField = false
+				return true
+			}
+			a, ok := ce.Args[0].(*ast.SelectorExpr)
+			if !ok || src(a.X) != recv || (field != "" && field != a.Sel.Name) {
+				okField = false
+				return true
+			}
+			field = a.Sel.Name
+			return true
+		})
+	})
+	if field == "" || !okField {
+		return false
+	}
+	// the handler with the USER clause
+	var auth *ast.FuncDecl
+	nAuth := 0
+	eachSessionMethod(func(fd *ast.FuncDecl, recv string) {
+		has := false
+		ast.Inspect(fd.Body, func(n ast.Node) bool {
+			if cc, ok := n.(*ast.CaseClause); ok {
+				for _, e := range cc.List {
+					if s, ok := strLitVal(e); ok && s == "USER" {
+						has = true
+					}
+				}
+			}
+			return true
+		})
+		if has {
+			auth = fd
+			nAuth++
+		}
+	})
+	if nAuth != 1 {
+		return false
+	}
+	recv := auth.Recv.List[0].Names[0].Name
+	args, argIdx := "", -1
+	ptypes, pnames := addrTypes(auth.Type.Params), addrParamNames(auth.Type.Params)
+	for i, t := range ptypes {
+		if t == "[]string" {
+			if args != "" {
+				return false
+			}
+			args, argIdx = pnames[i], i
+		}
+	}
+	if args == "" || args == "_" {
+		return false
+	}
+	plain := func(as *ast.AssignStmt) bool {
+		if as.Tok != token.ASSIGN || len(as.Lhs) != 1 || len(as.Rhs) != 1 {
+			return false
+		}
+		l, ok := as.Lhs[0].(*ast.SelectorExpr)
+		if !ok || l.Sel.Name != field || src(l.X) != recv {
+			return false
+		}
+		ie, ok := as.Rhs[0].(*ast.IndexExpr)
+		return ok && src(ie.X) == args && src(ie.Index) == "0"
+	}
+	// (a) every assignment to the field anywhere in the package is the plain one inside the auth handler; no
+	//     composite literal sets it
+	allPlain, total := true, 0
+	for _, f := range pk.files {
+		ast.Inspect(f, func(n ast.Node) bool {
+			switch v := n.(type) {
+			case *ast.AssignStmt:
+				for _, l := range v.Lhs {
+					if se, ok := l.(*ast.SelectorExpr); ok && se.Sel.Name == field {
+						total++
+						if !plain(v) || !(auth.Body.Pos() <= v.Pos() && v.End() <= auth.Body.End()) {
+							allPlain = false
+						}
+					}
+				}
+			case *ast.IncDecStmt:
+				if se, ok := v.X.(*ast.SelectorExpr); ok && se.Sel.Name == field {
+					allPlain = false
+				}
+			case *ast.UnaryExpr:
+				if se, ok := v.X.(*ast.SelectorExpr); ok && v.Op == token.AND && se.Sel.Name == field {
+					allPlain = false
+				}
+			case *ast.KeyValueExpr:
+				if id, ok := v.Key.(*ast.Ident); ok && id.Name == field {
+					allPlain = false
+				}
+			}
+			return true
+		})
+	}
+	// (b) the parameter is never written; the USER clause holds one of the assignments
+	env := addrNewEnv(pk, auth)
+	argsKept := len(env.assigns[args]) == 0
+	ast.Inspect(auth.Body, func(n ast.Node) bool {
+		if as, ok := n.(*ast.AssignStmt); ok {
+			for _, l := range as.Lhs {
+				if ie, ok := l.(*ast.IndexExpr); ok && src(ie.X) == args {
+					argsKept = false
+				}
+			}
+		}
+		return true
+	})
+	inUser := 0
+	ast.Inspect(auth.Body, func(n ast.Node) bool {
+		cc, ok := n.(*ast.CaseClause)
+		if !ok {
+			return true
+		}
+		isUser := false
+		for _, e := range cc.List {
+			if s, ok := strLitVal(e); ok && s == "USER" {
+				isUser = true
+			}
+		}
+		if isUser {
+			for _, st := range cc.Body {
+				ast.Inspect(st, func(m ast.Node) bool {
+					if as, ok := m.(*ast.AssignStmt); ok && plain(as) {
+						inUser++
+					}
+					return true
+				})
+			}
+		}
+		return true
+	})
+	// (c) where the handler's arguments come from: `c, a := <x>.M(line)` … `<x>.auth(c, a)`
+	var parser *ast.FuncDecl
+	parseOK := true
+	nCalls := 0
+	for _, f := range pk.files {
 		for _, d := range f.Decls {
 			fd, ok := d.(*ast.FuncDecl)
 			if !ok || fd.Body == nil {
 				continue
 			}
-			has := false
 			ast.Inspect(fd.Body, func(n ast.Node) bool {
-				if _, ok := isCtxVarsName(n); ok {
-					has = true
+				ce, ok := n.(*ast.CallExpr)
+				if !ok {
+					return true
+				}
+				se, ok := ce.Fun.(*ast.SelectorExpr)
+				if !ok || se.Sel.Name != auth.Name.Name {
+					return true
+				}
+				nCalls++
+				if argIdx >= len(ce.Args) {
+					parseOK = false
+					return true
+				}
+				a, ok := ce.Args[argIdx].(*ast.Ident)
+				if !ok {
+					parseOK = false
+					return true
+				}
+				// the definition of a in the enclosing function
+				var defs []*ast.AssignStmt
+				cnt := 0
+				ast.Inspect(fd.Body, func(m ast.Node) bool {
+					if as, ok := m.(*ast.AssignStmt); ok {
+						for i, l := range as.Lhs {
+							if id, ok := l.(*ast.Ident); ok && id.Name == a.Name {
+								cnt++
+								if i == 1 && len(as.Lhs) == 2 && len(as.Rhs) == 1 {
+									defs = append(defs, as)
+								}
+							}
+						}
+					}
+					return true
+				})
+				if cnt != 1 || len(defs) != 1 {
+					parseOK = false
+					return true
+				}
+				pc, ok := defs[0].Rhs[0].(*ast.CallExpr)
+				if !ok {
+					parseOK = false
+					return true
+				}
+				ps, ok := pc.Fun.(*ast.SelectorExpr)
+				if !ok {
+					parseOK = false
+					return true
+				}
+				m := pk.methods[addrRecvType(auth)+"."+ps.Sel.Name]
+				if m == nil || (parser != nil && parser != m) {
+					parseOK = false
+					return true
+				}
+				parser = m
+				return true
+			})
+		}
+	}
+	if !parseOK || parser == nil || nCalls == 0 || parser.Body == nil || !addrSigIs(parser, []string{"string"}, []string{"string", "[]string"}) {
+		return false
+	}
+	// (d) the parser: the only returns are `return "", nil` and `return strings.ToUpper(W[0]), W[1:]`, W := strings.Split(<line>, " ")
+	penv := addrNewEnv(pk, parser)
+	splitOK := false
+	line := addrParamNames(parser.Type.Params)[0]
+	trimOK := true
+	ast.Inspect(parser.Body, func(n ast.Node) bool {
+		if as, ok := n.(*ast.AssignStmt); ok {
+			for _, l := range as.Lhs {
+				if src(l) == line && !(len(as.Lhs) == 1 && len(as.Rhs) == 1 && as.Tok == token.ASSIGN && penv.render(as.Rhs[0], as.Pos()) == `strings.TrimRight($p0, "\r\n")`) {
+					trimOK = false
+				}
+			}
+		}
+		return true
+	})
+	if !trimOK {
+		return false
+	}
+	for _, r := range addrReturns(parser.Body) {
+		if len(r.Results) != 2 {
+			return false
+		}
+		t := penv.resultTexts(r)
+		if t[0] == `""` && t[1] == "nil" {
+			continue
+		}
+		w := `strings.Split($p0, " ")`
+		if t[0] == "strings.ToUpper("+w+"[0])" && t[1] == w+"[1:]" {
+			splitOK = true
+			continue
+		}
+		return false
+	}
+	return allPlain && total >= 1 && argsKept && inUser == 1 && splitOK
+}
+
+// ------------------------------------------------------------------------------------------------ Gen/Addr2.lean
+
+func extractAddr2() {
+	g := gen("Addr2")
+
+	// ---- 1. handlers taking a mailbox name from the URL
+	rows := []addr2Row{}
+	nameIdx, accounted := 0, 0
+	for _, dir := range addr2HandlerDirs {
+		pk := addrLoadPkg(dir)
+		if pk.broken || len(pk.files) == 0 {
+			nameIdx += 1000 // unreadable: make handlers_complete fail
+			continue
+		}
+		for _, f := range pk.files {
+			ast.Inspect(f, func(n ast.Node) bool {
+				if _, ok := addr2IsNameIndex(n); ok {
+					nameIdx++
 				}
 				return true
 			})
-			if has {
-				rows = append(rows, analyseHandler(rel, fd))
+			for _, d := range f.Decls {
+				fd, ok := d.(*ast.FuncDecl)
+				if !ok || fd.Body == nil {
+					continue
+				}
+				row, isRow, acc := addr2Analyse(pk, fd)
+				accounted += acc
+				if isRow {
+					rows = append(rows, row)
+				}
 			}
 		}
 	}
@@ -256,12 +2008,14 @@ func extractAddr2() {
 		hp = append(hp, fmt.Sprintf("(%s, %s, %s, %s)", leanStr(r.file), leanStr(r.fn), leanBool(r.canon), leanBool(r.onlyCano)))
 	}
 	g.def("handlers", "List (String × String × Bool × Bool)", "[\n  "+strings.Join(hp, ",\n  ")+"]",
-		"(file, function, canon, onlyCanon) for every function of the REST / websocket / web-UI controllers that reads ctx.Vars[\"name\"]: "+
-			"canon = the first use is `v, err := ctx.Manager.MailboxForAddress(ctx.Vars[\"name\"])` as a statement of the function body; "+
-			"onlyCanon = that is the only use, and nothing mentions ctx.Manager / ctx.MsgHub before it")
+		"(file, function, canon, onlyCanon) for every function of packages pkg/rest and pkg/webui that has a *web.Context parameter C and gets at the URL name "+
+			"(reads C.Vars[\"name\"], or calls a helper that is exactly `return C.Manager.MailboxForAddress(C.Vars[\"name\"])`): "+
+			"canon = the first such use is an unconditional statement `v, err := C.Manager.MailboxForAddress(C.Vars[\"name\"])` (or `:= helper(C)`, or the argument is a "+
+			"local defined as C.Vars[\"name\"] and used nowhere else); onlyCanon = that is the only use, and nothing mentions C.Manager / C.MsgHub before it")
 	g.def("handlerCount", "Nat", strconv.Itoa(len(rows)), "number of rows of `handlers`")
-	g.def("varsNameUses", "Nat", strconv.Itoa(nameIdx),
-		"number of index expressions `<x>[\"name\"]` (any x) anywhere in the four controller files; one per handler when every name is read as ctx.Vars[\"name\"] exactly once")
+	g.def("strayNameReads", "Nat", strconv.Itoa(nameIdx-accounted),
+		"number of index expressions `<x>[\"name\"]` (any x) in pkg/rest and pkg/webui that are NOT the argument of the canonical MailboxForAddress call of a row "+
+			"with canon && onlyCanon (or of the canonical helper): 0 when nobody reads the name through an alias, mux.Vars or a second time")
 
 	routes := [][2]string{}
 	routeLits := 0
@@ -271,6 +2025,7 @@ func extractAddr2() {
 			routeLits += 1000
 			continue
 		}
+		imports := addrImports(f)
 		var found [][2]string
 		ast.Inspect(f, func(n ast.Node) bool {
 			if s, ok := n.(*ast.BasicLit); ok && s.Kind == token.STRING && strings.Contains(s.Value, "{name}") {
@@ -293,7 +2048,7 @@ func extractAddr2() {
 				return true
 			}
 			if p, ok := strLitVal(pc.Args[0]); ok && strings.Contains(p, "{name}") {
-				found = append(found, [2]string{rel, routeHandlerName(ce.Args[0])})
+				found = append(found, [2]string{rel, addr2RouteHandlerName(imports, ce.Args[0])})
 			}
 			return true
 		})
@@ -306,223 +2061,100 @@ func extractAddr2() {
 		return routes[i][1] < routes[j][1]
 	})
 	g.def("routesWithName", "List (String × String)", addr2PairList(routes),
-		"(routes file, handler function) for every `r.Path(\"…{name}…\").Handler(web.Handler(F))` registration")
+		"(routes file, handler function) for every `<r>.Path(\"…{name}…\").Handler(web.Handler(F))` registration")
 	g.def("routeNameLits", "Nat", strconv.Itoa(routeLits),
 		"number of string literals containing \"{name}\" in the two routes files (each must be one recognised registration)")
 
 	// ---- 2. MailboxForAddress is ExtractMailbox
 	mfa := false
-	if fd := fn(parse("pkg/message/manager.go"), "StoreManager", "MailboxForAddress"); fd != nil && fd.Body != nil && len(fd.Body.List) == 1 {
-		recvOK := len(fd.Recv.List) == 1 && len(fd.Recv.List[0].Names) == 1 && fd.Recv.List[0].Names[0].Name == "s" && src(fd.Recv.List[0].Type) == "*StoreManager"
-		ps := fd.Type.Params.List
-		parOK := len(ps) == 1 && len(ps[0].Names) == 1 && ps[0].Names[0].Name == "mailbox" && src(ps[0].Type) == "string"
-		mfa = recvOK && parOK && src(fd.Body.List[0]) == "return s.AddrPolicy.ExtractMailbox(mailbox)"
-	}
-	g.def("mailboxForAddressIsExtract", "Bool", leanBool(mfa),
-		"(s *StoreManager) MailboxForAddress(mailbox string) is exactly `return s.AddrPolicy.ExtractMailbox(mailbox)`")
-
-	// ---- 3. canonicalDomain / IPv6 tag
-	af := parse("pkg/policy/address.go")
-	cdLit, cdN, cdOK := "", 0, false
-	if fd := fn(af, "", "canonicalDomain"); fd != nil && fd.Body != nil && len(fd.Body.List) == 2 {
-		ps := fd.Type.Params.List
-		parOK := len(ps) == 1 && len(ps[0].Names) == 1 && ps[0].Names[0].Name == "domain" && src(ps[0].Type) == "string"
-		is := plainIf(fd.Body.List[0])
-		last, _ := fd.Body.List[1].(*ast.ReturnStmt)
-		if parOK && is != nil && last != nil && len(last.Results) == 1 && src(last.Results[0]) == "strings.ToLower(domain)" {
-			if ce, ok := is.Cond.(*ast.CallExpr); ok && src(ce.Fun) == "strings.HasPrefix" && len(ce.Args) == 2 && src(ce.Args[0]) == "domain" {
-				if lit, ok := strLitVal(ce.Args[1]); ok {
-					if r := singleReturn(is.Body); r != nil && len(r.Results) == 1 {
-						if be, ok := r.Results[0].(*ast.BinaryExpr); ok && be.Op == token.ADD {
-							l2, ok2 := strLitVal(be.X)
-							if tl, ok := be.Y.(*ast.CallExpr); ok && ok2 && l2 == lit && src(tl.Fun) == "strings.ToLower" && len(tl.Args) == 1 {
-								if se, ok := tl.Args[0].(*ast.SliceExpr); ok && src(se.X) == "domain" && se.High == nil && se.Max == nil && !se.Slice3 && se.Low != nil {
-									if n, ok := intLitVal(se.Low); ok {
-										cdLit, cdN, cdOK = lit, n, true
-									}
-								}
-							}
-						}
-					}
+	mpk := addrLoadPkg("pkg/message")
+	if fd := mpk.methods["StoreManager.MailboxForAddress"]; fd != nil && fd.Body != nil && addrSigIs(fd, []string{"string"}, addrStrRes) {
+		env := addrNewEnv(mpk, fd)
+		var evs []addrEv
+		for _, ev := range addrFlatten(fd.Body.List) {
+			if !env.isNoise(ev) {
+				evs = append(evs, ev)
+			}
+		}
+		const want = "$recv.AddrPolicy.ExtractMailbox($p0)"
+		isExit := func(ev addrEv, leaves int, results ...string) bool {
+			if ev.kind != addrEvExit || len(ev.leaves) != leaves {
+				return false
+			}
+			t := env.resultTexts(ev.ret)
+			if len(t) != len(results) {
+				return false
+			}
+			for i := range t {
+				if t[i] != results[i] {
+					return false
+				}
+			}
+			return true
+		}
+		switch {
+		case len(evs) == 1:
+			mfa = isExit(evs[0], 0, want)
+		case len(evs) >= 2 && evs[0].kind == addrEvAssign && len(evs[0].as.Lhs) == 2 && len(evs[0].as.Rhs) == 1 &&
+			env.render(evs[0].as.Rhs[0], evs[0].at) == want:
+			v, e := src(evs[0].as.Lhs[0]), src(evs[0].as.Lhs[1])
+			if v != "_" && e != "_" && len(env.assigns[v]) == 1 && len(env.assigns[e]) == 1 {
+				if len(evs) == 2 {
+					mfa = isExit(evs[1], 0, v, e)
+				} else if len(evs) == 3 {
+					mfa = isExit(evs[1], 1, `""`, e) && env.leafTexts(evs[1])[0] == e+" != nil" && isExit(evs[2], 0, v, "nil")
 				}
 			}
 		}
 	}
+	g.def("mailboxForAddressIsExtract", "Bool", leanBool(mfa),
+		"(R *StoreManager) MailboxForAddress(P string) returns exactly R.AddrPolicy.ExtractMailbox(P): `return R.AddrPolicy.ExtractMailbox(P)`, or "+
+			"`v, err := R.AddrPolicy.ExtractMailbox(P)` followed by `return v, err` / `if err != nil { return \"\", err }; return v, nil`")
+
+	// ---- 3. canonicalDomain / IPv6 tag
+	p := addrAnalysePolicy()
+	cdLit, cdN, cdOK := p.addrCanonShape()
 	g.def("canonicalDomainShape", "Option (String × Nat)", optStrNat(cdLit, cdN, cdOK),
-		"canonicalDomain(domain) is `if strings.HasPrefix(domain, LIT) { return LIT + strings.ToLower(domain[N:]) }; return strings.ToLower(domain)`: (LIT, N)")
+		"canonicalDomain (= the one (string) string helper both naming returns go through; parameter D) is \"LIT + strings.ToLower(D[N:]) when strings.HasPrefix(D, LIT), "+
+			"strings.ToLower(D) otherwise\" in any if / else / switch arrangement: (LIT, N)")
 	g.def("canonicalDomainLit", "Option (List Nat)", optBytes(cdLit, cdOK), "bytes of that LIT")
 
-	vtLit, vtN, vtOK := "", 0, false
-	if fd := fn(af, "", "ValidateDomainPart"); fd != nil && fd.Body != nil {
-		cnt := 0
-		ast.Inspect(fd.Body, func(n ast.Node) bool {
-			if ce, ok := n.(*ast.CallExpr); ok && src(ce.Fun) == "strings.HasPrefix" {
-				cnt++
-			}
-			is, ok := n.(*ast.IfStmt)
-			if !ok || is.Init != nil || is.Else != nil {
-				return true
-			}
-			ce, ok := is.Cond.(*ast.CallExpr)
-			if !ok || src(ce.Fun) != "strings.HasPrefix" || len(ce.Args) != 2 || src(ce.Args[0]) != "domain[1:]" {
-				return true
-			}
-			lit, ok := strLitVal(ce.Args[1])
-			if !ok || len(is.Body.List) != 1 {
-				return true
-			}
-			as, ok := is.Body.List[0].(*ast.AssignStmt)
-			if !ok || as.Tok != token.ASSIGN || len(as.Lhs) != 1 || len(as.Rhs) != 1 || src(as.Lhs[0]) != "s" {
-				return true
-			}
-			if n, ok := intLitVal(as.Rhs[0]); ok {
-				vtLit, vtN, vtOK = lit, n, true
-			}
-			return true
-		})
-		// the surrounding code: `s := 1` before, `net.ParseIP(domain[s : ln-1])` after
-		body := src(fd.Body)
-		if cnt != 1 || !strings.Contains(body, "s := 1\n") || !strings.Contains(body, "net.ParseIP(domain[s : ln-1])") {
-			vtOK = false
-		}
-	}
+	vtLit, vtN, vtOK := p.addrValidateTag()
 	g.def("validateTag", "Option (String × Nat)", optStrNat(vtLit, vtN, vtOK),
-		"ValidateDomainPart, bracketed branch: `s := 1; if strings.HasPrefix(domain[1:], LIT) { s = N }; net.ParseIP(domain[s : ln-1])`: (LIT, N)")
+		"ValidateDomainPart (parameter D): the argument of the one net.ParseIP call is D[S : len(D)-1] where the local S is defined as 1 and is set to N under the one "+
+			"`strings.HasPrefix(D[1:], LIT)` and nowhere else: (LIT, N)")
 	g.def("validateTagLit", "Option (List Nat)", optBytes(vtLit, vtOK), "bytes of that LIT")
 
 	// ---- 4. name-shape test of ExtractMailbox and the naming returns
-	var conds []string
-	condsOK := false
-	posOK := false
-	dispatchOK := false
-	var fullRet, domRet *string
-	if fd := fn(af, "Addressing", "ExtractMailbox"); fd != nil && fd.Body != nil && len(fd.Body.List) > 0 {
-		L := fd.Body.List
-		if is := plainIf(L[0]); is != nil && src(is.Cond) == "a.Config.MailboxNaming == config.DomainNaming" {
-			if r := singleReturn(is.Body); r != nil && len(r.Results) == 1 && src(r.Results[0]) == "extractDomainMailbox(address)" {
-				dispatchOK = true
-			}
-		}
-		pmIdx := -1
-		for i, st := range L {
-			if as, ok := st.(*ast.AssignStmt); ok && len(as.Rhs) == 1 && src(as) == "local, err = parseMailboxName(local)" {
-				pmIdx = i
-				break
-			}
-		}
-		var emptyIf, shapeIf *ast.IfStmt
-		if pmIdx >= 0 && pmIdx+3 < len(L) {
-			errIf := plainIf(L[pmIdx+1])
-			e := plainIf(L[pmIdx+2])
-			s := plainIf(L[pmIdx+3])
-			errOK := false
-			if errIf != nil && src(errIf.Cond) == "err != nil" {
-				if r := singleReturn(errIf.Body); r != nil && len(r.Results) == 2 && src(r.Results[0]) == `""` && src(r.Results[1]) == "err" {
-					errOK = true
-				}
-			}
-			rejects := func(is *ast.IfStmt) bool {
-				if is == nil {
-					return false
-				}
-				r := singleReturn(is.Body)
-				if r == nil || len(r.Results) != 2 || src(r.Results[0]) != `""` {
-					return false
-				}
-				ce, ok := r.Results[1].(*ast.CallExpr)
-				return ok && (src(ce.Fun) == "errors.New" || src(ce.Fun) == "fmt.Errorf")
-			}
-			if errOK && rejects(e) && rejects(s) {
-				if _, isBin := e.Cond.(*ast.BinaryExpr); isBin && len(orLeaves(e.Cond)) == 1 {
-					conds = append(conds, src(e.Cond))
-					for _, lf := range orLeaves(s.Cond) {
-						conds = append(conds, src(lf))
-					}
-					condsOK = true
-					emptyIf, shapeIf = e, s
-				}
-			}
-		}
-		if condsOK {
-			// the first top-level `if a.Config.MailboxNaming == config.LocalNaming { return local, nil }`
-			var sw *ast.IfStmt
-			for _, st := range L {
-				if is := plainIf(st); is != nil && src(is.Cond) == "a.Config.MailboxNaming == config.LocalNaming" {
-					if r := singleReturn(is.Body); r != nil && len(r.Results) == 2 && src(r.Results[0]) == "local" && src(r.Results[1]) == "nil" {
-						sw = is
-					}
-					break
-				}
-			}
-			ok := sw != nil && L[pmIdx].End() <= emptyIf.Pos() && emptyIf.End() <= shapeIf.Pos() && shapeIf.End() <= sw.Pos()
-			// no mention of config.LocalNaming / config.FullNaming before the shape test ends, and every return before
-			// it either fails (`""`) or is the domain-naming dispatch
-			ast.Inspect(fd.Body, func(n ast.Node) bool {
-				if n == nil || n.Pos() >= shapeIf.End() {
-					return false
-				}
-				switch v := n.(type) {
-				case *ast.SelectorExpr:
-					if s := src(v); s == "config.LocalNaming" || s == "config.FullNaming" {
-						ok = false
-					}
-				case *ast.ReturnStmt:
-					if len(v.Results) == 0 {
-						ok = false
-					} else if r0 := src(v.Results[0]); r0 != `""` && r0 != "extractDomainMailbox(address)" {
-						ok = false
-					}
-				}
-				return true
-			})
-			posOK = ok
-		}
-		if r, ok := L[len(L)-1].(*ast.ReturnStmt); ok && len(r.Results) == 2 {
-			s := src(r.Results[0])
-			fullRet = &s
-		}
-	}
-	if fd := fn(af, "", "extractDomainMailbox"); fd != nil && fd.Body != nil && len(fd.Body.List) > 0 {
-		L := fd.Body.List
-		if r, ok := L[len(L)-1].(*ast.ReturnStmt); ok && len(r.Results) == 2 {
-			s := src(r.Results[0])
-			domRet = &s
-		}
-	}
 	nst := "none"
-	if condsOK {
-		nst = "some " + strList(conds)
+	if p.atomsOK {
+		nst = "some " + strList(p.atoms)
 	}
 	g.def("nameShapeTest", "Option (List String)", nst,
-		"ExtractMailbox: right after `local, err = parseMailboxName(local)` and its error check come `if C0 { return \"\", error }` and `if C1 || C2 || … { return \"\", error }`: [C0, C1, C2, …]")
-	g.def("nameShapeBeforeNamingSwitch", "Bool", leanBool(posOK),
-		"both ifs lie between the parseMailboxName call and the first `if a.Config.MailboxNaming == config.LocalNaming { return local, nil }`, and no statement before them returns a name (other than the domain-naming dispatch)")
-	g.def("domainDispatchFirst", "Bool", leanBool(dispatchOK),
-		"the first statement of ExtractMailbox is `if a.Config.MailboxNaming == config.DomainNaming { return extractDomainMailbox(address) }`")
-	g.def("fullReturn", "Option String", optStr(fullRet), "first result of the last statement (a return) of ExtractMailbox")
-	g.def("domainReturn", "Option String", optStr(domRet), "first result of the last statement (a return) of extractDomainMailbox")
+		"ExtractMailbox: after `X, E := <mailbox-name parser>(result 0 of the raw parser)` and `if E != nil { return \"\", E }` come only exits that return (\"\", error); "+
+			"the SET of their conditions ('||' in one guard, consecutive ifs, a switch and an unexported (string) bool / (string) error helper are all the same), sorted, each "+
+			"named from a closed vocabulary — empty: X == \"\" | len(X) == 0; leadDot: X[0] == '.' | strings.HasPrefix(X, \".\"); trailDot: X[len(X)-1] == '.' | strings.HasSuffix(X, \".\"); "+
+			"dotDot: strings.Contains(X, \"..\") — and anything else as its canonical text with X printed as $x")
+	g.def("nameShapeConds", "List String", strList(p.conds), "the same conditions in evaluation order as canonical text (informative; not pinned)")
+	g.def("nameShapeIndexGuarded", "Bool", leanBool(p.guardedOK),
+		"every condition that indexes X (X[0], X[len(X)-1]) is evaluated after the emptiness condition")
+	g.def("nameShapeBeforeNamingSwitch", "Bool", leanBool(p.posOK),
+		"before the last of those exits no statement returns a name (other than the domain-naming dispatch) and nothing mentions config.LocalNaming / config.FullNaming; "+
+			"after it there is an exit `R.Config.MailboxNaming == config.LocalNaming` (if or switch case) returning (X, nil)")
+	g.def("domainDispatchFirst", "Bool", leanBool(p.dispatchOK),
+		"the first thing ExtractMailbox(P) does is `R.Config.MailboxNaming == config.DomainNaming` (if or switch case) => `return F(P)`, F an unexported (string) (string, error) function (extractDomainMailbox)")
+	g.def("fullReturn", "Option String", optStr(p.fullRet),
+		"ExtractMailbox: result 0 of the one `return E, nil` with E other than X itself, printed with X = $x, result 1 of the raw parser = $dom, the (string) string helper = $canon")
+	g.def("domainReturn", "Option String", optStr(p.domRet),
+		"the domain extractor: result 0 of its one `return E, nil`, printed with the variable passed to ValidateDomainPart = $dom and the SAME helper as in fullReturn = $canon")
 
 	// ---- 5. POP3 takes the name verbatim
 	usesPolicy := false
-	pop3Dir := filepath.Join(repo, "pkg/server/pop3")
-	ents, err := os.ReadDir(pop3Dir)
-	if err != nil {
+	ppk := addrLoadPkg("pkg/server/pop3")
+	if ppk.broken || len(ppk.files) == 0 {
 		usesPolicy = true // unreadable: make the tie fail
 	}
-	seenHandler := false
-	for _, e := range ents {
-		n := e.Name()
-		if e.IsDir() || !strings.HasSuffix(n, ".go") || strings.HasSuffix(n, "_test.go") || strings.HasPrefix(n, "verif_export") {
-			continue
-		}
-		if n == "handler.go" {
-			seenHandler = true
-		}
-		f := parse("pkg/server/pop3/" + n)
-		if f == nil {
-			usesPolicy = true
-			continue
-		}
+	for _, f := range ppk.files {
 		for _, im := range f.Imports {
 			if p, ok := strLitVal(im.Path); ok && strings.HasSuffix(p, "/pkg/policy") {
 				usesPolicy = true
@@ -535,90 +2167,10 @@ func extractAddr2() {
 			return true
 		})
 	}
-	if !seenHandler {
-		usesPolicy = true
-	}
 	g.def("pop3UsesPolicy", "Bool", leanBool(usesPolicy),
 		"some non-test file of pkg/server/pop3 imports pkg/policy or mentions ExtractMailbox / MailboxForAddress")
-
-	verbatim := false
-	hf := parse("pkg/server/pop3/handler.go")
-	if ah := fn(hf, "Session", "authorizationHandler"); ah != nil && ah.Body != nil {
-		ps := ah.Type.Params.List
-		parOK := len(ps) == 2 && len(ps[1].Names) == 1 && ps[1].Names[0].Name == "args" && src(ps[1].Type) == "[]string"
-		// (a) every assignment whose left side mentions `.user` anywhere in handler.go is `s.user = args[0]`
-		allPlain, total := true, 0
-		ast.Inspect(hf, func(n ast.Node) bool {
-			as, ok := n.(*ast.AssignStmt)
-			if !ok {
-				return true
-			}
-			for _, l := range as.Lhs {
-				if se, ok := l.(*ast.SelectorExpr); ok && se.Sel.Name == "user" {
-					total++
-					if src(as) != "s.user = args[0]" {
-						allPlain = false
-					}
-				}
-			}
-			return true
-		})
-		// composite literals of Session must not set user either
-		ast.Inspect(hf, func(n ast.Node) bool {
-			if kv, ok := n.(*ast.KeyValueExpr); ok && src(kv.Key) == "user" {
-				allPlain = false
-			}
-			return true
-		})
-		// (b) args is never assigned in authorizationHandler; the USER clause holds one of the assignments
-		argsKept := true
-		inUser := 0
-		ast.Inspect(ah.Body, func(n ast.Node) bool {
-			switch v := n.(type) {
-			case *ast.AssignStmt:
-				for _, l := range v.Lhs {
-					if strings.HasPrefix(src(l), "args") {
-						argsKept = false
-					}
-				}
-			case *ast.CaseClause:
-				isUser := false
-				for _, e := range v.List {
-					if s, ok := strLitVal(e); ok && s == "USER" {
-						isUser = true
-					}
-				}
-				if isUser {
-					for _, st := range v.Body {
-						ast.Inspect(st, func(m ast.Node) bool {
-							if as, ok := m.(*ast.AssignStmt); ok && src(as) == "s.user = args[0]" {
-								inUser++
-							}
-							return true
-						})
-					}
-				}
-			}
-			return true
-		})
-		// (c) loadMailbox hands s.user to the store as is; (d) parseCmd returns words[1:] of a plain split
-		loadOK := false
-		if lm := fn(hf, "Session", "loadMailbox"); lm != nil && lm.Body != nil {
-			ast.Inspect(lm.Body, func(n ast.Node) bool {
-				if ce, ok := n.(*ast.CallExpr); ok && src(ce) == "s.store.GetMessages(s.user)" {
-					loadOK = true
-				}
-				return true
-			})
-		}
-		parseOK := false
-		if pc := fn(hf, "Session", "parseCmd"); pc != nil && pc.Body != nil {
-			b := src(pc.Body)
-			parseOK = strings.Contains(b, `words := strings.Split(line, " ")`) && strings.Contains(b, "return strings.ToUpper(words[0]), words[1:]")
-		}
-		verbatim = parOK && allPlain && total >= 1 && argsKept && inUser == 1 && loadOK && parseOK
-	}
-	g.def("pop3UserVerbatim", "Bool", leanBool(verbatim),
-		"pkg/server/pop3/handler.go: every assignment to the session's user field is `s.user = args[0]` (one of them in the USER clause), args is the untouched "+
-			"parameter holding words[1:] of the space-split line, and loadMailbox calls s.store.GetMessages(s.user)")
+	g.def("pop3UserVerbatim", "Bool", leanBool(addr2Pop3Verbatim(ppk)),
+		"pkg/server/pop3: the session field handed to GetMessages (the mailbox key) is only ever assigned `A[0]`, inside the handler that has the USER clause (once in that clause), "+
+			"where A is that handler's never-written []string parameter; A is result 1 of the command parser at every call of the handler, and the parser returns "+
+			"(strings.ToUpper(W[0]), W[1:]) for W = strings.Split(line, \" \") after at most trimming CR / LF")
 }
